@@ -185,3 +185,1860 @@ Lemma gov_validate_ext s s1 t : gov_view s s1 → gov_validate s1 t = gov_valida
 Proof.
   intros (A & B & C & D). unfold gov_validate, is_validator. rewrite A, B, C, D. reflexivity.
 Qed.
+
+(* ================================================================== 3. the structure of DeliverTx *)
+
+Definition ctl_same (s s' : state) : Prop :=
+  committed s' = committed s ∧ gparams s' = gparams s ∧ newparams s' = newparams s ∧
+  alldels s' = alldels s ∧ lastvals s' = lastvals s ∧ b_height (bctx s') = b_height (bctx s) ∧
+  b_proposer (bctx s') = b_proposer (bctx s) ∧ last_height s' = last_height s.
+
+Lemma ctl_same_refl s : ctl_same s s.
+Proof. repeat split. Qed.
+
+Definition deliver_post (s : state) (t : tx) (s' : state) (r : res Z) : Prop :=
+  ctl_same s s' ∧ fprops (work s') = fprops (work s) ∧ lparams (work s') = lparams (work s) ∧
+  ( (props (work s') = props (work s) ∧ (∀ g, r = Ok g → is_gov t = false))
+  ∨ (is_gov t = true ∧ ∃ sender l0 l',
+       accts (work s) !! t_from t = Some sender ∧
+       common_validation0 (gparams s) t = None ∧ common_validation1 sender t = None ∧
+       gov_validate s t = None ∧ gov_same (work s) l0 ∧ accts l0 !! t_from t = Some sender ∧
+       gov_execute s l0 t = Ok l' ∧ props (work s') = props l' ∧
+       (r = Ok (t_gas t) ∨ (r = Err E_FUND ∧ sub_balance sender (fee_of t) = None)))).
+
+Lemma deliver_inv s t s' r : deliver s t = (s', r) → deliver_post s t s' r.
+Proof.
+  intros Hd. unfold deliver in Hd.
+  destruct (accts (work s) !! t_from t) as [sender|] eqn:Es.
+  2:{ inversion Hd; subst. split; [apply ctl_same_refl|]. split; [reflexivity|]. split; [reflexivity|].
+      left. split; [reflexivity|]. intros g Hg; discriminate. }
+  cbv zeta in Hd.
+  destruct (find_or_new _ (t_to t)) as [l0 receiver] eqn:Ef. simpl in Ef.
+  pose proof (find_or_new_gov _ _ _ _ Ef) as Hg0.
+  pose proof (find_or_new_accts _ _ _ _ _ _ Ef Es) as Hs0.
+  set (s1 := with_work _ l0) in *.
+  assert (Hc1 : ctl_same s s1) by (repeat split).
+  assert (Hv1 : gov_view s s1) by (destruct Hg0 as (A & _); repeat split; exact A).
+  assert (Hfail : ∀ e, deliver_post s t s1 (Err e)).
+  { intros e. destruct Hg0 as (A & B & C). split; [exact Hc1|]. split; [exact B|]. split; [exact C|].
+    left. split; [exact A|]. intros g Hg; discriminate. }
+  assert (Hpanic : ∀ p, deliver_post s t s1 (Panic p)).
+  { intros e. destruct Hg0 as (A & B & C). split; [exact Hc1|]. split; [exact B|]. split; [exact C|].
+    left. split; [exact A|]. intros g Hg; discriminate. }
+  destruct (common_validation0 (gparams s) t) as [e|] eqn:Ec0.
+  { inversion Hd; subst. apply Hfail. }
+  destruct (common_validation1 sender t) as [e|] eqn:Ec1.
+  { inversion Hd; subst. apply Hfail. }
+  fold (is_gov t) in Hd.
+  destruct (is_gov t) eqn:Eg.
+  - (* governance transaction *)
+    assert (Hevm : (t_type t =? TRX_CONTRACT) || (t_type t =? TRX_TRANSFER) && a_code receiver = false).
+    { unfold is_gov in Eg. apply orb_true_iff in Eg. destruct Eg as [E|E]; apply Z.eqb_eq in E; rewrite E; reflexivity. }
+    rewrite Hevm in Hd.
+    rewrite (gov_validate_ext _ _ _ Hv1) in Hd.
+    destruct (gov_validate s t) as [e|] eqn:Egv.
+    { inversion Hd; subst. apply Hfail. }
+    set (s2 := with_lim s1 (lim s1)) in *.
+    change (work s2) with l0 in Hd.
+    rewrite (gov_execute_ext s s2 l0 t eq_refl) in Hd.
+    destruct (gov_execute s l0 t) as [l'| e | p] eqn:Ege.
+    2:{ inversion Hd; subst. apply Hfail. }
+    2:{ inversion Hd; subst. apply Hpanic. }
+    destruct (gov_execute_frame _ _ _ _ Ege) as (Ha & Hf & Hl).
+    rewrite Ha, Hs0 in Hd.
+    destruct Hg0 as (A & B & C).
+    destruct (sub_balance sender (fee_of t)) as [snd''|] eqn:Esb; inversion Hd; subst; clear Hd.
+    + split; [repeat split|]. split; [simpl; congruence|]. split; [simpl; congruence|].
+      right. split; [exact Eg|]. exists sender, l0, l'. repeat split; auto.
+    + split; [repeat split|]. split; [simpl; congruence|]. split; [simpl; congruence|].
+      right. split; [exact Eg|]. exists sender, l0, l'. repeat split; auto.
+  - (* any other transaction: the governance ledgers are not touched *)
+    match type of Hd with context [match ?v with Ok _ => _ | Err _ => _ | Panic _ => _ end] =>
+      destruct v as [lim'| e | p] end.
+    2:{ inversion Hd; subst. apply Hfail. }
+    2:{ inversion Hd; subst. apply Hpanic. }
+    set (s2 := with_lim s1 lim') in *.
+    change (work s2) with l0 in Hd.
+    destruct Hg0 as (A & B & C).
+    destruct ((t_type t =? TRX_CONTRACT) || (t_type t =? TRX_TRANSFER) && a_code receiver).
+    + destruct (evm_execute l0 t) as [[l' gas] | e | p] eqn:Ee; inversion Hd; subst; clear Hd.
+      * apply evm_execute_gov in Ee. destruct Ee as (A' & B' & C').
+        split; [repeat split|]. simpl. split; [congruence|]. split; [congruence|]. left. split; [congruence|auto].
+      * apply Hfail.
+      * apply Hpanic.
+    + match type of Hd with context [match ?v with Ok _ => _ | Err _ => _ | Panic _ => _ end] =>
+        destruct v as [l'| e | p] eqn:Ex end.
+      2:{ inversion Hd; subst. apply Hfail. }
+      2:{ inversion Hd; subst. apply Hpanic. }
+      assert (Hx : gov_same l0 l').
+      { destruct ((t_type t =? TRX_TRANSFER) || (t_type t =? TRX_SETDOC)).
+        - eapply acct_execute_gov; exact Ex.
+        - eapply stake_execute_gov; exact Ex. }
+      destruct Hx as (A' & B' & C').
+      destruct (accts l' !! t_from t) as [snd'|].
+      2:{ inversion Hd; subst. apply Hfail. }
+      destruct (sub_balance snd' (fee_of t)) as [snd''|]; inversion Hd; subst; clear Hd.
+      * split; [repeat split|]. simpl. split; [congruence|]. split; [congruence|]. left. split; [congruence|auto].
+      * split; [repeat split|]. simpl. split; [congruence|]. split; [congruence|]. left. split; [congruence|].
+        intros g Hg; discriminate.
+Qed.
+
+(* ================================================================== 4. folds with an error-propagating accumulator *)
+
+Lemma foldl_res_inv {A B} (P : A → Prop) (f : res A → B → res A) (xs : list B) :
+  (∀ acc x a', (∀ a, acc = Ok a → P a) → f acc x = Ok a' → P a') →
+  ∀ acc, (∀ a, acc = Ok a → P a) → ∀ a', foldl f acc xs = Ok a' → P a'.
+Proof.
+  intros Hstep. induction xs as [|x xs IH]; intros acc Hacc a' Hf; simpl in Hf.
+  - apply Hacc; exact Hf.
+  - eapply IH; [|exact Hf]. intros a Ha. eapply Hstep; [exact Hacc|exact Ha].
+Qed.
+
+(* ================================================================== 5. BeginBlock *)
+
+Lemma gov_punish_inner_frame (a : addr) (ratio : Z) (ts : list (hash * proposal)) l :
+  let l' := foldl (λ l kp, match props l !! kp.1 with
+                   | Some p => set_props l (<[kp.1 := (prop_punish p a ratio).1]> (props l))
+                   | None => l end) l ts in
+  fprops l' = fprops l ∧ lparams l' = lparams l.
+Proof.
+  revert l. induction ts as [|kp ts IH]; intros l; simpl.
+  - split; reflexivity.
+  - destruct (props l !! kp.1) as [p|].
+    + destruct (IH (set_props l (<[kp.1:=(prop_punish p a ratio).1]> (props l)))) as (A & B).
+      simpl in A, B. split; assumption.
+    + apply IH.
+Qed.
+
+Lemma gov_punish_frame l ratio evi :
+  fprops (gov_punish l ratio evi) = fprops l ∧ lparams (gov_punish l ratio evi) = lparams l.
+Proof.
+  unfold gov_punish. revert l. induction evi as [|a evi IH]; intros l; simpl.
+  - split; reflexivity.
+  - match goal with |- context [foldl _ (foldl ?f l ?ts) evi] =>
+      destruct (IH (foldl f l ts)) as (A & B);
+      destruct (gov_punish_inner_frame a ratio ts l) as (C & D) end.
+    split; congruence.
+Qed.
+
+Lemma stake_punish_gov l ratio evi : gov_same l (stake_punish l ratio evi).
+Proof.
+  unfold stake_punish. revert l. induction evi as [|a evi IH]; intros l; simpl.
+  - apply gov_same_refl.
+  - destruct (dels l !! a) as [d|].
+    + eapply gov_same_trans; [|apply IH]. apply gov_same_set_dels.
+    + apply IH.
+Qed.
+
+Lemma process_votes_gov s l h votes l' iss :
+  process_votes s l h votes = Ok (l', iss) → gov_same l l'.
+Proof.
+  unfold process_votes. destruct (ledgers_at s (hgt_of_power h)) as [old|]; [|discriminate].
+  intros H.
+  apply (foldl_res_inv (λ x : ledgers * Z, gov_same l x.1) _ _) with (a' := (l', iss)) in H; [exact H| |].
+  - clear H. intros acc v [l2 i2] Hacc Hstep.
+    destruct acc as [[l1 i1]| |]; try discriminate.
+    specialize (Hacc _ eq_refl). simpl in Hacc. simpl.
+    destruct v as [[a pw] signed]. destruct signed.
+    + destruct (dels old !! a) as [d|].
+      * destruct (negb (d_total d =? pw)).
+        -- inversion Hstep; subst; exact Hacc.
+        -- destruct (reward_to (gparams s) h (rewards l1) d) as [[rw is]| |]; try discriminate.
+           inversion Hstep; subst. eapply gov_same_trans; [exact Hacc|apply gov_same_set_rewards].
+      * inversion Hstep; subst; exact Hacc.
+    + destruct (dels l1 !! a) as [d|].
+      * destruct (count_in_window _ _ _) as [cnt m2].
+        destruct (g_signedBlocksWindow (gparams s) - cnt <? g_minSignedBlocks (gparams s)).
+        -- inversion Hstep; subst. eapply gov_same_trans; [exact Hacc|]. repeat split.
+        -- inversion Hstep; subst. eapply gov_same_trans; [exact Hacc|]. repeat split.
+      * inversion Hstep; subst; exact Hacc.
+  - intros a Ha. inversion Ha; subst. apply gov_same_refl.
+Qed.
+
+Lemma begin_block_inv s hd s' r : begin_block s hd = (s', r) →
+  committed s' = committed s ∧ gparams s' = gparams s ∧ newparams s' = newparams s ∧
+  lastvals s' = lastvals s ∧
+  fprops (work s') = fprops (work s) ∧ lparams (work s') = lparams (work s) ∧
+  (s' = s ∨
+   (h_height hd = last_height s + 1 ∧ b_height (bctx s') = h_height hd ∧
+    props (work s') = props (gov_punish (work s) (g_slashRatio (gparams s)) (h_evidence hd)))).
+Proof.
+  unfold begin_block. intros H.
+  destruct (negb (h_height hd =? last_height s + 1)) eqn:Eh.
+  { inversion H; subst. repeat split; auto. }
+  apply negb_false_iff, Z.eqb_eq in Eh.
+  cbv zeta in H.
+  set (l1 := gov_punish (work s) (g_slashRatio (gparams s)) (h_evidence hd)) in *.
+  set (l2 := stake_punish l1 (g_slashRatio (gparams s)) (h_evidence hd)) in *.
+  destruct (gov_punish_frame (work s) (g_slashRatio (gparams s)) (h_evidence hd)) as (F1 & F2).
+  fold l1 in F1, F2.
+  destruct (stake_punish_gov l1 (g_slashRatio (gparams s)) (h_evidence hd)) as (G1 & G2 & G3).
+  fold l2 in G1, G2, G3.
+  destruct (h_votes hd) as [|v votes].
+  { inversion H; subst; simpl. repeat split; try congruence. right. repeat split; congruence. }
+  destruct (process_votes _ l2 (h_height hd) (v :: votes)) as [[l3 issued]| e | p] eqn:Ep;
+    inversion H; subst; simpl; clear H.
+  - apply process_votes_gov in Ep. destruct Ep as (P1 & P2 & P3).
+    repeat split; try congruence. right. repeat split; congruence.
+  - repeat split; try congruence. right. repeat split; congruence.
+  - repeat split; try congruence. right. repeat split; congruence.
+Qed.
+
+(* ================================================================== 6. EndBlock: freezeProposals *)
+
+Lemma foldl_err {A B} (f : res A → B → res A) (xs : list B) :
+  (∀ e x, f (Err e) x = Err e) → ∀ e, foldl f (Err e) xs = Err e.
+Proof. intros Hf e. induction xs as [|x xs IH]; simpl; [reflexivity|]. rewrite Hf. exact IH. Qed.
+Lemma foldl_panic {A B} (f : res A → B → res A) (xs : list B) :
+  (∀ e x, f (Panic e) x = Panic e) → ∀ e, foldl f (Panic e) xs = Panic e.
+Proof. intros Hf e. induction xs as [|x xs IH]; simpl; [reflexivity|]. rewrite Hf. exact IH. Qed.
+
+Lemma NoDup_keys_sorted_items {A} (m : gmap N A) : NoDup (sorted_items m).*1.
+Proof.
+  unfold sorted_items. rewrite merge_sort_Permutation. apply NoDup_fst_map_to_list.
+Qed.
+
+Definition freeze_step (h : Z) (acc : res ledgers) (kp : hash * proposal) : res ledgers :=
+  match acc with
+  | Ok l =>
+      let p := kp.2 in
+      if p_end p <? h then
+        match props l !! kp.1 with
+        | None => Panic P_ENDBLOCK
+        | Some _ =>
+            let l1 := set_props l (delete kp.1 (props l)) in
+            match update_major p with
+            | Ok p' => match p_major p' with
+                       | Some _ => Ok (set_fprops l1 (<[kp.1 := p']> (fprops l1)))
+                       | None => Ok l1 end
+            | Err e => Err e | Panic x => Panic x
+            end
+        end
+      else Ok l
+  | x => x end.
+
+Lemma freeze_proposals_fold base l h :
+  freeze_proposals base l h = foldl (freeze_step h) (Ok l) (sorted_items (props base)).
+Proof. reflexivity. Qed.
+
+(* everything but the two proposal ledgers *)
+Definition nongov_same (l l' : ledgers) : Prop :=
+  accts l' = accts l ∧ dels l' = dels l ∧ frozen l' = frozen l ∧ rewards l' = rewards l ∧ lparams l' = lparams l.
+
+(* the effect of freezing on one proposal key [k] whose committed version is [p] *)
+Definition frozen_at (h : Z) (l l' : ledgers) (k : hash) (p : proposal) : Prop :=
+  if p_end p <? h then
+    props l' !! k = None ∧ is_Some (props l !! k) ∧
+    ∃ p', update_major p = Ok p' ∧
+          fprops l' !! k = match p_major p' with Some _ => Some p' | None => fprops l !! k end
+  else props l' !! k = props l !! k ∧ fprops l' !! k = fprops l !! k.
+
+Lemma freeze_step_spec h l k0 p0 l1 :
+  freeze_step h (Ok l) (k0, p0) = Ok l1 →
+  nongov_same l l1 ∧
+  (∀ k, k ≠ k0 → props l1 !! k = props l !! k ∧ fprops l1 !! k = fprops l !! k) ∧
+  frozen_at h l l1 k0 p0.
+Proof.
+  unfold freeze_step, frozen_at. simpl. intros H.
+  destruct (p_end p0 <? h) eqn:Eend.
+  2:{ inversion H; subst. split; [repeat split|]. split; auto. }
+  destruct (props l !! k0) as [q|] eqn:Ep; [|discriminate].
+  destruct (update_major p0) as [p'| |] eqn:Eu; try discriminate.
+  destruct (p_major p') as [o|] eqn:Em; inversion H; subst; clear H; simpl.
+  - split; [repeat split|]. split.
+    + intros k Hk. rewrite lookup_delete_ne, lookup_insert_ne by auto. auto.
+    + rewrite lookup_delete, lookup_insert. split; [reflexivity|]. split; [eauto|].
+      exists p'. rewrite Em. auto.
+  - split; [repeat split|]. split.
+    + intros k Hk. rewrite lookup_delete_ne by auto. auto.
+    + rewrite lookup_delete. split; [reflexivity|]. split; [eauto|].
+      exists p'. rewrite Em. auto.
+Qed.
+
+Lemma freeze_fold_spec h items : NoDup items.*1 →
+  ∀ l l', foldl (freeze_step h) (Ok l) items = Ok l' →
+  nongov_same l l' ∧
+  (∀ k, k ∉ items.*1 → props l' !! k = props l !! k ∧ fprops l' !! k = fprops l !! k) ∧
+  (∀ k p, (k, p) ∈ items → frozen_at h l l' k p).
+Proof.
+  induction items as [|[k0 p0] items IH]; intros Hnd l l' H.
+  - simpl in H. inversion H; subst. split; [repeat split|]. split; [auto|]. intros k p Hin. inversion Hin.
+  - change (foldl (freeze_step h) (freeze_step h (Ok l) (k0, p0)) items = Ok l') in H.
+    simpl in Hnd. apply NoDup_cons in Hnd. destruct Hnd as (Hk0 & Hnd).
+    destruct (freeze_step h (Ok l) (k0, p0)) as [l1|e|e] eqn:E1.
+    2:{ rewrite foldl_err in H by reflexivity. discriminate. }
+    2:{ rewrite foldl_panic in H by reflexivity. discriminate. }
+    destruct (freeze_step_spec _ _ _ _ _ E1) as (N1 & O1 & F1).
+    destruct (IH Hnd _ _ H) as (N2 & O2 & F2).
+    split.
+    { destruct N1 as (?&?&?&?&?), N2 as (?&?&?&?&?). repeat split; congruence. }
+    split.
+    + intros k Hk. simpl in Hk. apply not_elem_of_cons in Hk. destruct Hk as (Hne & Hk).
+      destruct (O1 k Hne) as (A & B). destruct (O2 k Hk) as (C & D). split; congruence.
+    + intros k p Hin. apply elem_of_cons in Hin. destruct Hin as [Heq|Hin].
+      * inversion Heq; subst k p. destruct (O2 k0 Hk0) as (C & D).
+        unfold frozen_at in *. destruct (p_end p0 <? h).
+        -- destruct F1 as (A & B & p' & Hu & Hf). rewrite C, D. split; [exact A|]. split; [exact B|].
+           exists p'. auto.
+        -- destruct F1 as (A & B). split; congruence.
+      * assert (Hne : k ≠ k0).
+        { intros ->. apply Hk0. apply elem_of_list_fmap. exists (k0, p). auto. }
+        destruct (O1 k Hne) as (A & B). specialize (F2 k p Hin).
+        unfold frozen_at in *. rewrite A, B in F2. exact F2.
+Qed.
+
+(* G4, pointwise form: what freezeProposals does to every proposal key *)
+Theorem freeze_proposals_spec base l h l' :
+  freeze_proposals base l h = Ok l' →
+  nongov_same l l' ∧
+  ∀ k, match props base !! k with
+       | Some p => frozen_at h l l' k p
+       | None => props l' !! k = props l !! k ∧ fprops l' !! k = fprops l !! k
+       end.
+Proof.
+  rewrite freeze_proposals_fold. intros H.
+  destruct (freeze_fold_spec h _ (NoDup_keys_sorted_items (props base)) _ _ H) as (N & O & F).
+  split; [exact N|]. intros k.
+  destruct (props base !! k) as [p|] eqn:Ek.
+  - apply F. apply elem_of_sorted_items. exact Ek.
+  - apply O. intros Hin. apply elem_of_list_fmap in Hin. destruct Hin as ([k' p] & -> & Hin).
+    apply elem_of_sorted_items in Hin. simpl in Ek. unfold hash in *. congruence.
+Qed.
+
+(* ================================================================== 7. EndBlock: applyProposals *)
+
+Definition apply_step (s : state) (h : Z) (acc : res (ledgers * option params)) (kp : hash * proposal)
+    : res (ledgers * option params) :=
+  match acc with
+  | Ok (l, np) =>
+      let p := kp.2 in
+      if p_apply p <=? h then
+        match fprops l !! kp.1 with
+        | None => Panic P_ENDBLOCK
+        | Some _ =>
+            let l1 := set_fprops l (delete kp.1 (fprops l)) in
+            match p_major p with
+            | Some o =>
+                if p_opttype p =? PROPOSAL_GOVPARAMS then
+                  match o_params o with
+                  | Some newp => let m := merge_params (gparams s) newp in Ok (set_lparams l1 m, Some m)
+                  | None => Panic P_ENDBLOCK
+                  end
+                else Ok (l1, np)
+            | None => Ok (l1, np)
+            end
+        end
+      else Ok (l, np)
+  | x => x end.
+
+Lemma apply_proposals_fold s base l h :
+  apply_proposals s base l h = foldl (apply_step s h) (Ok (l, newparams s)) (sorted_items (fprops base)).
+Proof. reflexivity. Qed.
+
+(* the parameter document a frozen proposal carries: that of its major option, when the proposal
+   is of the parameter-changing kind *)
+Definition gov_payload (p : proposal) : option params :=
+  match p_major p with
+  | Some o => if p_opttype p =? PROPOSAL_GOVPARAMS then o_params o else None
+  | None => None end.
+
+Lemma gov_payload_Some p newp :
+  gov_payload p = Some newp ↔
+  ∃ o, p_major p = Some o ∧ p_opttype p = PROPOSAL_GOVPARAMS ∧ o_params o = Some newp.
+Proof.
+  unfold gov_payload. split.
+  - destruct (p_major p) as [o|]; [|discriminate].
+    destruct (p_opttype p =? PROPOSAL_GOVPARAMS) eqn:E; [|discriminate].
+    apply Z.eqb_eq in E. intros H. exists o. auto.
+  - intros (o & -> & -> & H). exact H.
+Qed.
+
+(* the document of the LAST due proposal, in key order: the one whose merge survives *)
+Definition due_payloads (h : Z) (items : list (hash * proposal)) : list params :=
+  omap (λ kp : hash * proposal, if p_apply kp.2 <=? h then gov_payload kp.2 else None) items.
+
+Definition applied_at (h : Z) (l l' : ledgers) (k : hash) (p : proposal) : Prop :=
+  if p_apply p <=? h then fprops l' !! k = None ∧ is_Some (fprops l !! k)
+  else fprops l' !! k = fprops l !! k.
+
+Definition fprops_frame (l l' : ledgers) : Prop :=
+  accts l' = accts l ∧ dels l' = dels l ∧ frozen l' = frozen l ∧ rewards l' = rewards l ∧ props l' = props l.
+
+Lemma due_payloads_cons h kp items :
+  last (due_payloads h (kp :: items)) =
+  match last (due_payloads h items) with
+  | Some n => Some n
+  | None => if p_apply kp.2 <=? h then gov_payload kp.2 else None end.
+Proof.
+  unfold due_payloads. simpl.
+  destruct (if p_apply kp.2 <=? h then gov_payload kp.2 else None) as [n0|]; simpl.
+  - rewrite last_cons. reflexivity.
+  - destruct (last _); reflexivity.
+Qed.
+
+Lemma apply_step_spec s h l np k0 p0 l1 np1 :
+  apply_step s h (Ok (l, np)) (k0, p0) = Ok (l1, np1) →
+  fprops_frame l l1 ∧
+  (∀ k, k ≠ k0 → fprops l1 !! k = fprops l !! k) ∧
+  applied_at h l l1 k0 p0 ∧
+  match (if p_apply p0 <=? h then gov_payload p0 else None) with
+  | Some newp => np1 = Some (merge_params (gparams s) newp) ∧ lparams l1 = merge_params (gparams s) newp
+  | None => np1 = np ∧ lparams l1 = lparams l
+  end.
+Proof.
+  unfold apply_step, applied_at, gov_payload. simpl. intros H.
+  destruct (p_apply p0 <=? h) eqn:Eap.
+  2:{ inversion H; subst. split; [repeat split|]. split; auto. }
+  destruct (fprops l !! k0) as [q|] eqn:Ep; [|discriminate].
+  assert (Hd : ∀ k, k ≠ k0 → delete k0 (fprops l) !! k = fprops l !! k).
+  { intros k Hk. apply lookup_delete_ne. auto. }
+  destruct (p_major p0) as [o|] eqn:Em.
+  - destruct (p_opttype p0 =? PROPOSAL_GOVPARAMS) eqn:Et.
+    + destruct (o_params o) as [newp|] eqn:Eo; [|discriminate].
+      inversion H; subst; clear H; simpl. split; [repeat split|]. split; [exact Hd|].
+      rewrite lookup_delete. split; [split; eauto|]. split; reflexivity.
+    + inversion H; subst; clear H; simpl. split; [repeat split|]. split; [exact Hd|].
+      rewrite lookup_delete. split; [split; eauto|]. split; reflexivity.
+  - inversion H; subst; clear H; simpl. split; [repeat split|]. split; [exact Hd|].
+    rewrite lookup_delete. split; [split; eauto|]. split; reflexivity.
+Qed.
+
+Lemma apply_fold_spec s h items : NoDup items.*1 →
+  ∀ l np l' np', foldl (apply_step s h) (Ok (l, np)) items = Ok (l', np') →
+  fprops_frame l l' ∧
+  (∀ k, k ∉ items.*1 → fprops l' !! k = fprops l !! k) ∧
+  (∀ k p, (k, p) ∈ items → applied_at h l l' k p) ∧
+  match last (due_payloads h items) with
+  | Some newp => np' = Some (merge_params (gparams s) newp) ∧ lparams l' = merge_params (gparams s) newp
+  | None => np' = np ∧ lparams l' = lparams l
+  end.
+Proof.
+  induction items as [|[k0 p0] items IH]; intros Hnd l np l' np' H.
+  - simpl in H. inversion H; subst. split; [repeat split|]. split; [auto|]. split.
+    + intros k p Hin. inversion Hin.
+    + simpl. auto.
+  - change (foldl (apply_step s h) (apply_step s h (Ok (l, np)) (k0, p0)) items = Ok (l', np')) in H.
+    simpl in Hnd. apply NoDup_cons in Hnd. destruct Hnd as (Hk0 & Hnd).
+    destruct (apply_step s h (Ok (l, np)) (k0, p0)) as [[l1 np1]|e|e] eqn:E1.
+    2:{ rewrite foldl_err in H by reflexivity. discriminate. }
+    2:{ rewrite foldl_panic in H by reflexivity. discriminate. }
+    destruct (apply_step_spec _ _ _ _ _ _ _ _ E1) as (N1 & O1 & F1 & P1).
+    destruct (IH Hnd _ _ _ _ H) as (N2 & O2 & F2 & P2).
+    split.
+    { destruct N1 as (?&?&?&?&?), N2 as (?&?&?&?&?). repeat split; congruence. }
+    split.
+    { intros k Hk. simpl in Hk. apply not_elem_of_cons in Hk. destruct Hk as (Hne & Hk).
+      rewrite (O2 k Hk). apply O1. exact Hne. }
+    split.
+    { intros k p Hin. apply elem_of_cons in Hin. destruct Hin as [Heq|Hin].
+      - inversion Heq; subst k p. unfold applied_at in *. rewrite (O2 k0 Hk0). exact F1.
+      - assert (Hne : k ≠ k0).
+        { intros ->. apply Hk0. apply elem_of_list_fmap. exists (k0, p). auto. }
+        specialize (F2 k p Hin). unfold applied_at in *. rewrite (O1 k Hne) in F2. exact F2. }
+    rewrite due_payloads_cons. simpl.
+    destruct (last (due_payloads h items)) as [n|].
+    + exact P2.
+    + destruct (if p_apply p0 <=? h then gov_payload p0 else None) as [n0|].
+      * destruct P1 as (A & B), P2 as (C & D). split; congruence.
+      * destruct P1 as (A & B), P2 as (C & D). split; congruence.
+Qed.
+
+(* G5, pointwise form *)
+Theorem apply_proposals_spec s base l h l' np' :
+  apply_proposals s base l h = Ok (l', np') →
+  fprops_frame l l' ∧
+  (∀ k, match fprops base !! k with
+        | Some p => applied_at h l l' k p
+        | None => fprops l' !! k = fprops l !! k end) ∧
+  match last (due_payloads h (sorted_items (fprops base))) with
+  | Some newp => np' = Some (merge_params (gparams s) newp) ∧ lparams l' = merge_params (gparams s) newp
+  | None => np' = newparams s ∧ lparams l' = lparams l
+  end.
+Proof.
+  rewrite apply_proposals_fold. intros H.
+  destruct (apply_fold_spec s h _ (NoDup_keys_sorted_items (fprops base)) _ _ _ _ H) as (N & O & F & P).
+  split; [exact N|]. split; [|exact P]. intros k.
+  destruct (fprops base !! k) as [p|] eqn:Ek.
+  - apply F. apply elem_of_sorted_items. exact Ek.
+  - apply O. intros Hin. apply elem_of_list_fmap in Hin. destruct Hin as ([k' p] & -> & Hin).
+    apply elem_of_sorted_items in Hin. simpl in Ek. unfold hash in *. congruence.
+Qed.
+
+(* where an applied parameter document comes from *)
+Lemma due_payloads_elem h items newp :
+  newp ∈ due_payloads h items →
+  ∃ k p, (k, p) ∈ items ∧ p_apply p ≤ h ∧ gov_payload p = Some newp.
+Proof.
+  unfold due_payloads. intros Hin. apply elem_of_list_omap in Hin.
+  destruct Hin as ([k p] & Hin & Hp). simpl in Hp.
+  destruct (p_apply p <=? h) eqn:E; [|discriminate]. apply Z.leb_le in E.
+  exists k, p. auto.
+Qed.
+
+(* ================================================================== 8. EndBlock and Commit as a whole *)
+
+Lemma unfreeze_gov base l h l' : unfreeze base l h = Ok l' → gov_same l l'.
+Proof.
+  unfold unfreeze. intros H.
+  apply (foldl_res_inv (λ x : ledgers, gov_same l x) _ _) in H; [exact H| |].
+  - clear H. intros acc kp l2 Hacc Hstep.
+    destruct acc as [l1| |]; try discriminate. specialize (Hacc _ eq_refl).
+    destruct (s_refund kp.2 <=? h).
+    + destruct (acct_reward l1 (s_from kp.2) (power_to_amount (s_power kp.2))) as [l3|] eqn:Er; [|discriminate].
+      inversion Hstep; subst. apply acct_reward_gov in Er.
+      eapply gov_same_trans; [exact Hacc|]. eapply gov_same_trans; [exact Er|]. apply gov_same_set_frozen.
+    + inversion Hstep; subst. exact Hacc.
+  - intros a Ha. inversion Ha; subst. apply gov_same_refl.
+Qed.
+
+Lemma end_block_inv s s' r : end_block s = (s', r) →
+  committed s' = committed s ∧ gparams s' = gparams s ∧ bctx s' = bctx s ∧ last_height s' = last_height s ∧
+  ((s' = s ∧ ∀ u, r ≠ Ok u) ∨
+   ∃ l1 l2 np, freeze_proposals (base_of s) (work s) (b_height (bctx s)) = Ok l1 ∧
+               apply_proposals s (base_of s) l1 (b_height (bctx s)) = Ok (l2, np) ∧
+               gov_same l2 (work s') ∧ newparams s' = np).
+Proof.
+  unfold end_block. intros H.
+  destruct (freeze_proposals (base_of s) (work s) (b_height (bctx s))) as [l1|e|e] eqn:Ef.
+  2,3: inversion H; subst; repeat split; auto.
+  destruct (apply_proposals s (base_of s) l1 (b_height (bctx s))) as [[l2 np]|e|e] eqn:Ea.
+  2,3: inversion H; subst; repeat split; auto.
+  match type of H with context [match ?x with Some l3 => _ | None => _ end] =>
+    destruct x as [l3|] eqn:E3 end.
+  2: inversion H; subst; repeat split; auto.
+  assert (H3 : gov_same l2 l3).
+  { destruct (b_proposer (bctx s)) as [pa|].
+    - destruct (0 <? sign256 (b_feesum (bctx s))).
+      + destruct (add_balance _ _) as [x|]; [|discriminate]. inversion E3; subst. apply gov_same_set_acct.
+      + inversion E3; subst. apply gov_same_refl.
+    - inversion E3; subst. apply gov_same_refl. }
+  destruct (unfreeze (base_of s) l3 (b_height (bctx s))) as [l4|e|e] eqn:Eu.
+  2,3: inversion H; subst; repeat split; auto.
+  destruct (g_maxValidatorCnt (gparams s) <? 0).
+  { inversion H; subst; repeat split; auto. }
+  inversion H; subst; clear H; simpl. repeat split; auto.
+  right. exists l1, l2, np. repeat split; auto.
+  - apply unfreeze_gov in Eu. destruct H3 as (?&?&?), Eu as (?&?&?). congruence.
+  - apply unfreeze_gov in Eu. destruct H3 as (?&?&?), Eu as (?&?&?). congruence.
+  - apply unfreeze_gov in Eu. destruct H3 as (?&?&?), Eu as (?&?&?). congruence.
+Qed.
+
+(* ================================================================== 9. G1: where parameters can change *)
+
+(* G1a: DeliverTx never touches the active parameters, the pending ones, the stored ones, or the
+   frozen proposals. *)
+Theorem deliver_params_unchanged s t :
+  let s' := (deliver s t).1 in
+  gparams s' = gparams s ∧ newparams s' = newparams s ∧
+  lparams (work s') = lparams (work s) ∧ fprops (work s') = fprops (work s) ∧
+  committed s' = committed s ∧ lastvals s' = lastvals s.
+Proof.
+  destruct (deliver s t) as [s' r] eqn:Hd. simpl.
+  destruct (deliver_inv _ _ _ _ Hd) as ((C1 & C2 & C3 & C4 & C5 & C6 & C7 & C8) & F & L & _).
+  repeat split; assumption.
+Qed.
+
+(* G1b: BeginBlock likewise (it only slashes voters of open proposals) *)
+Theorem begin_block_params_unchanged s hd :
+  let s' := (begin_block s hd).1 in
+  gparams s' = gparams s ∧ newparams s' = newparams s ∧
+  lparams (work s') = lparams (work s) ∧ fprops (work s') = fprops (work s) ∧
+  committed s' = committed s ∧ lastvals s' = lastvals s.
+Proof.
+  destruct (begin_block s hd) as [s' r] eqn:Hb. simpl.
+  destruct (begin_block_inv _ _ _ _ Hb) as (A & B & C & D & E & F & _). repeat split; assumption.
+Qed.
+
+(* G1c: EndBlock leaves the active parameters alone; pending parameters appear only as the merge of
+   the ACTIVE parameters with the document of the major option of a frozen proposal of the
+   committed frozen tree that is due (applying height reached) and of the parameter kind; the
+   stored parameters of the working ledger are set to the same value. *)
+Theorem end_block_params s :
+  let s' := (end_block s).1 in
+  gparams s' = gparams s ∧ committed s' = committed s ∧
+  ((newparams s' = newparams s ∧ lparams (work s') = lparams (work s)) ∨
+   ∃ k p o newp,
+     fprops (base_of s) !! k = Some p ∧ p_apply p ≤ b_height (bctx s) ∧
+     p_opttype p = PROPOSAL_GOVPARAMS ∧ p_major p = Some o ∧ o_params o = Some newp ∧
+     newparams s' = Some (merge_params (gparams s) newp) ∧
+     lparams (work s') = merge_params (gparams s) newp).
+Proof.
+  destruct (end_block s) as [s' r] eqn:He. simpl.
+  destruct (end_block_inv _ _ _ He) as (A & B & C & D & [(-> & _)|(l1 & l2 & np & Hf & Ha & (G1 & G2 & G3) & Hn)]).
+  { repeat split; auto. }
+  split; [exact B|]. split; [exact A|].
+  destruct (freeze_proposals_spec _ _ _ _ Hf) as ((_&_&_&_&Fl) & _).
+  destruct (apply_proposals_spec _ _ _ _ _ _ Ha) as (_ & _ & P).
+  destruct (last (due_payloads (b_height (bctx s)) (sorted_items (fprops (base_of s))))) as [newp|] eqn:El.
+  - right. apply last_Some_elem_of, due_payloads_elem in El. destruct El as (k & p & Hin & Hap & Hp).
+    apply elem_of_sorted_items in Hin. apply gov_payload_Some in Hp. destruct Hp as (o & Hm & Ht & Ho).
+    destruct P as (P1 & P2). exists k, p, o, newp. repeat split; auto; congruence.
+  - left. destruct P as (P1 & P2). split; congruence.
+Qed.
+
+(* G1d: Commit switches the pending parameters in *)
+Theorem commit_params s :
+  gparams (commit s) = default (gparams s) (newparams s) ∧ newparams (commit s) = None ∧
+  work (commit s) = work s ∧ committed (commit s) = committed s ++ [work s].
+Proof. repeat split. Qed.
+
+(* ================================================================== 10. G6: active = stored parameters *)
+
+(* between EndBlock and Commit the stored parameters of the working ledger are the pending ones;
+   otherwise they are the active ones *)
+Definition params_inv (s : state) : Prop :=
+  match newparams s with
+  | Some m => lparams (work s) = m
+  | None => lparams (work s) = gparams s
+  end.
+
+(* the ledger version the governance query reads (the last committed one) carries the active
+   parameters *)
+Definition query_inv (s : state) : Prop := lparams (base_of s) = gparams s.
+
+Lemma base_of_same s s' :
+  committed s' = committed s → gparams s' = gparams s → base_of s' = base_of s.
+Proof. intros A B. unfold base_of. rewrite A, B. reflexivity. Qed.
+
+Lemma params_inv_step s o : params_inv s ∧ query_inv s → params_inv (sstep s o) ∧ query_inv (sstep s o).
+Proof.
+  intros (Hp & Hq). unfold params_inv, query_inv in *. destruct o as [hd|t| |]; simpl.
+  - destruct (begin_block_params_unchanged s hd) as (A & B & C & D & E & F).
+    rewrite (base_of_same _ _ E A), A, B, C. auto.
+  - destruct (deliver_params_unchanged s t) as (A & B & C & D & E & F).
+    rewrite (base_of_same _ _ E A), A, B, C. auto.
+  - destruct (end_block_params s) as (A & E & [(B & C)|(k & p & o & newp & _ & _ & _ & _ & _ & B & C)]).
+    + rewrite (base_of_same _ _ E A), A, B, C. auto.
+    + rewrite (base_of_same _ _ E A), A, B, C. auto.
+  - unfold base_of. simpl. rewrite last_snoc. simpl.
+    destruct (newparams s) as [m|]; simpl; auto.
+Qed.
+
+Lemma init_chain_lparams g : lparams (work (init_chain g)) = gen_params g.
+Proof.
+  unfold init_chain. simpl.
+  assert (H1 : ∀ (hs : list (addr * Z)) l,
+    lparams (foldl (λ l h, set_acct l h.1 {| a_nonce := 0; a_bal := h.2; a_code := false; a_name := 0%N; a_doc := 0%N |}) l hs) = lparams l).
+  { induction hs as [|x hs IH]; intros l; simpl; [reflexivity|]. rewrite IH. reflexivity. }
+  assert (H2 : ∀ (vs : list (addr * Z)) l,
+    lparams (foldl (λ l v, (find_or_new l v.1).1) l vs) = lparams l).
+  { induction vs as [|x vs IH]; intros l; simpl; [reflexivity|]. rewrite IH.
+    destruct (find_or_new l x.1) as [l' y] eqn:E. apply find_or_new_gov in E. destruct E as (_&_&E). exact E. }
+  assert (H3 : ∀ (vs : list (addr * Z)) l,
+    lparams (foldl (λ l v, set_dels l (<[v.1 := add_stake (new_delegatee v.1)
+               {| s_from := v.1; s_to := v.1; s_hash := 0%N; s_start := 1; s_refund := 0; s_power := v.2 |}]> (dels l))) l vs) = lparams l).
+  { induction vs as [|x vs IH]; intros l; simpl; [reflexivity|]. rewrite IH. reflexivity. }
+  rewrite H3, H2, H1. reflexivity.
+Qed.
+
+(* G6: in every state of every run the active parameters are those of the last committed
+   version of the parameter ledger (what the query path reads); the working version differs from
+   them exactly between an EndBlock that applied a proposal and the following Commit, where it
+   already holds the pending parameters. *)
+Theorem active_params_are_stored g ops :
+  let s := srun (init_chain g) ops in
+  lparams (base_of s) = gparams s ∧
+  match newparams s with
+  | Some m => lparams (work s) = m
+  | None => lparams (work s) = gparams s
+  end.
+Proof.
+  simpl. unfold srun.
+  assert (H : ∀ ops s, params_inv s ∧ query_inv s → params_inv (foldl sstep s ops) ∧ query_inv (foldl sstep s ops)).
+  { induction ops0 as [|o ops0 IH]; intros s Hs; simpl; [exact Hs|]. apply IH. apply params_inv_step. exact Hs. }
+  destruct (H ops (init_chain g)) as (A & B).
+  - split.
+    + unfold params_inv. simpl. apply init_chain_lparams.
+    + reflexivity.
+  - split; [exact B|exact A].
+Qed.
+Print Assumptions active_params_are_stored.
+
+(* right after any Commit: working ledger = last committed version, and its parameters are the
+   active ones *)
+Corollary active_params_after_commit g ops :
+  let s := srun (init_chain g) (ops ++ [SCommit]) in
+  last (committed s) = Some (work s) ∧ lparams (work s) = gparams s ∧ newparams s = None.
+Proof.
+  simpl. unfold srun. rewrite foldl_app. simpl.
+  pose proof (active_params_are_stored g (ops ++ [SCommit])) as H. simpl in H.
+  unfold srun in H. rewrite foldl_app in H. simpl in H. destruct H as (_ & H).
+  split; [apply last_snoc|]. split; [exact H|reflexivity].
+Qed.
+
+(* the combined statement of G1 for one step of a run *)
+Theorem params_change_only_at_commit s o :
+  gparams (sstep s o) ≠ gparams s → o = SCommit ∧ newparams s = Some (gparams (sstep s o)).
+Proof.
+  destruct o as [hd|t| |]; simpl; intros H.
+  - destruct (begin_block_params_unchanged s hd) as (A & _). contradiction.
+  - destruct (deliver_params_unchanged s t) as (A & _). contradiction.
+  - destruct (end_block_params s) as (A & _). contradiction.
+  - split; [reflexivity|]. destruct (newparams s) as [m|]; simpl in *; [reflexivity|contradiction].
+Qed.
+
+(* ================================================================== 11. sums over voter tables *)
+
+Definition sum_map {A} (f : A → Z) (m : gmap addr A) : Z := map_fold (λ _ v acc, f v + acc) 0 m.
+
+Lemma sum_map_empty {A} (f : A → Z) : sum_map f ∅ = 0.
+Proof. unfold sum_map. apply map_fold_empty. Qed.
+
+Lemma sum_map_insert {A} (f : A → Z) m k v :
+  m !! k = None → sum_map f (<[k := v]> m) = f v + sum_map f m.
+Proof.
+  intros H. unfold sum_map. rewrite map_fold_insert_L; [reflexivity| |exact H].
+  intros. lia.
+Qed.
+
+Lemma sum_map_delete {A} (f : A → Z) m k v :
+  m !! k = Some v → sum_map f (delete k m) = sum_map f m - f v.
+Proof.
+  intros H. rewrite <- (insert_delete m k v H) at 2.
+  rewrite sum_map_insert by apply lookup_delete. lia.
+Qed.
+
+Lemma sum_map_insert_some {A} (f : A → Z) m k v0 v :
+  m !! k = Some v0 → sum_map f (<[k := v]> m) = sum_map f m + f v - f v0.
+Proof.
+  intros H. rewrite <- insert_delete_insert. rewrite sum_map_insert by apply lookup_delete.
+  rewrite (sum_map_delete f m k v0 H). lia.
+Qed.
+
+Lemma sum_map_zero {A} (f : A → Z) (m : gmap addr A) :
+  (∀ k v, m !! k = Some v → f v = 0) → sum_map f m = 0.
+Proof.
+  induction m as [|k v m Hk IH] using map_ind; intros H.
+  - apply sum_map_empty.
+  - rewrite sum_map_insert by exact Hk. rewrite IH.
+    + rewrite (H k v); [reflexivity|apply lookup_insert].
+    + intros k' v' Hk'. apply (H k'). rewrite lookup_insert_ne; [exact Hk'|]. intros ->. congruence.
+Qed.
+
+(* ================================================================== 12. the tally invariant *)
+
+(* power of the recorded voters whose current choice is option [i] *)
+Definition votes_for (vs : gmap addr voter) (i : Z) : Z :=
+  sum_map (λ v, if v_choice v =? i then v_power v else 0) vs.
+Definition total_power (vs : gmap addr voter) : Z := sum_map v_power vs.
+
+Definition tally_ok (p : proposal) : Prop :=
+  (∀ (i : nat) o, p_options p !! i = Some o → o_votes o = votes_for (p_voters p) (Z.of_nat i)) ∧
+  map_Forall (λ _ v, v_choice v = -1 ∨ 0 ≤ v_choice v < Z.of_nat (length (p_options p))) (p_voters p).
+
+Definition total_ok (p : proposal) : Prop := p_total p = total_power (p_voters p).
+Definition maj_ok (p : proposal) : Prop := p_majority p = (p_total p * 2) `quot` 3.
+Definition powers_ok (p : proposal) : Prop := map_Forall (λ _ v, 0 ≤ v_power v < two63) (p_voters p).
+
+Lemma set_votes_same o : set_votes (o_votes o) o = o.
+Proof. destruct o; reflexivity. Qed.
+
+Lemma lookup_alter_votes (g : Z → Z) (opts : list voption) (c : Z) (i : nat) : 0 ≤ c →
+  alter (λ o, set_votes (g (o_votes o)) o) (Z.to_nat c) opts !! i =
+  (λ o, set_votes (if c =? Z.of_nat i then g (o_votes o) else o_votes o) o) <$> opts !! i.
+Proof.
+  intros Hc. destruct (decide (Z.to_nat c = i)) as [<-|Hne].
+  - rewrite list_lookup_alter. rewrite Z2Nat.id by exact Hc. rewrite Z.eqb_refl. reflexivity.
+  - rewrite list_lookup_alter_ne by exact Hne.
+    assert (E : c =? Z.of_nat i = false) by (apply Z.eqb_neq; lia).
+    rewrite E. destruct (opts !! i) as [o|]; simpl; [|reflexivity]. rewrite set_votes_same. reflexivity.
+Qed.
+
+Lemma cancel_vote_spec opts v o1 v1 : cancel_vote opts v = (o1, v1) →
+  v_power v1 = v_power v ∧ v_choice v1 = (if 0 <=? v_choice v then -1 else v_choice v) ∧
+  length o1 = length opts ∧
+  ∀ i : nat, o1 !! i =
+    (λ o, set_votes (o_votes o - (if v_choice v =? Z.of_nat i then v_power v else 0)) o) <$> opts !! i.
+Proof.
+  unfold cancel_vote. destruct (0 <=? v_choice v) eqn:E; intros H; inversion H; subst; clear H; simpl.
+  - apply Z.leb_le in E. split; [reflexivity|]. split; [reflexivity|]. split; [apply alter_length|].
+    intros i. pose proof (lookup_alter_votes (λ x, x - v_power v) opts (v_choice v) i E) as L.
+    cbv beta in L. rewrite L. clear L.
+    destruct (opts !! i) as [o|]; simpl; [|reflexivity].
+    destruct (v_choice v =? Z.of_nat i); [reflexivity|]. f_equal. f_equal. lia.
+  - apply Z.leb_gt in E. split; [reflexivity|]. split; [reflexivity|]. split; [reflexivity|].
+    intros i. assert (E' : v_choice v1 =? Z.of_nat i = false) by (apply Z.eqb_neq; lia). rewrite E'.
+    destruct (o1 !! i) as [o|]; simpl; [|reflexivity].
+    replace (o_votes o - 0) with (o_votes o) by lia. rewrite set_votes_same. reflexivity.
+Qed.
+
+Lemma do_vote_spec opts v c o2 v2 : 0 ≤ c → do_vote opts v c = (o2, v2) →
+  v2 = {| v_power := v_power v; v_choice := c |} ∧ length o2 = length opts ∧
+  ∀ i : nat, o2 !! i =
+    (λ o, set_votes (o_votes o + (if c =? Z.of_nat i then v_power v else 0)) o) <$> opts !! i.
+Proof.
+  unfold do_vote. intros Hc. assert (E : 0 <=? c = true) by (apply Z.leb_le; exact Hc). rewrite E.
+  intros H; inversion H; subst; clear H. split; [reflexivity|]. split; [apply alter_length|].
+  intros i. pose proof (lookup_alter_votes (λ x, x + v_power v) opts c i Hc) as L.
+  cbv beta in L. rewrite L. clear L.
+  destruct (opts !! i) as [o|]; simpl; [|reflexivity].
+  destruct (c =? Z.of_nat i); [reflexivity|]. f_equal. f_equal. lia.
+Qed.
+
+(* explicit form of GovProposal.DoVote *)
+Lemma prop_vote_spec p a c p' : 0 ≤ c → prop_vote p a c = Some p' →
+  ∃ v, p_voters p !! a = Some v ∧
+    p_voters p' = <[a := {| v_power := v_power v; v_choice := c |}]> (p_voters p) ∧
+    length (p_options p') = length (p_options p) ∧
+    (∀ i : nat, p_options p' !! i =
+       (λ o, set_votes (o_votes o - (if v_choice v =? Z.of_nat i then v_power v else 0)
+                                  + (if c =? Z.of_nat i then v_power v else 0)) o) <$> p_options p !! i) ∧
+    p_hash p' = p_hash p ∧ p_start p' = p_start p ∧ p_end p' = p_end p ∧ p_apply p' = p_apply p ∧
+    p_total p' = p_total p ∧ p_majority p' = p_majority p ∧ p_opttype p' = p_opttype p ∧
+    p_major p' = p_major p.
+Proof.
+  intros Hc. unfold prop_vote. destruct (p_voters p !! a) as [v|] eqn:Ev; simpl; [|discriminate].
+  destruct (cancel_vote (p_options p) v) as [o1 v1] eqn:E1.
+  destruct (do_vote o1 v1 c) as [o2 v2] eqn:E2.
+  intros H; inversion H; subst; clear H. simpl.
+  destruct (cancel_vote_spec _ _ _ _ E1) as (A1 & A2 & A3 & A4).
+  destruct (do_vote_spec _ _ _ _ _ Hc E2) as (B1 & B2 & B3).
+  exists v. split; [reflexivity|]. split; [rewrite B1, A1; reflexivity|]. split; [congruence|].
+  split; [|repeat split].
+  intros i. rewrite B3, A4, A1. destruct (p_options p !! i) as [o|]; simpl; reflexivity.
+Qed.
+
+Lemma votes_for_insert_some vs a v0 v i : vs !! a = Some v0 →
+  votes_for (<[a := v]> vs) i =
+  votes_for vs i + (if v_choice v =? i then v_power v else 0) - (if v_choice v0 =? i then v_power v0 else 0).
+Proof. intros H. unfold votes_for. rewrite (sum_map_insert_some _ _ _ _ _ H). reflexivity. Qed.
+
+Lemma votes_for_delete vs a v0 i : vs !! a = Some v0 →
+  votes_for (delete a vs) i = votes_for vs i - (if v_choice v0 =? i then v_power v0 else 0).
+Proof. intros H. unfold votes_for. rewrite (sum_map_delete _ _ _ _ H). reflexivity. Qed.
+
+(* G3: a (re-)vote keeps every option's tally equal to the power of the voters choosing it *)
+Lemma prop_vote_tally p a c p' :
+  0 ≤ c < Z.of_nat (length (p_options p)) → prop_vote p a c = Some p' → tally_ok p → tally_ok p'.
+Proof.
+  intros (Hc0 & Hc1) Hv (T1 & T2).
+  destruct (prop_vote_spec _ _ _ _ Hc0 Hv) as (v & Ev & Hvs & Hlen & Hopt & _).
+  split.
+  - intros i o' Ho'. rewrite Hopt in Ho'.
+    destruct (p_options p !! i) as [o|] eqn:Eo; simpl in Ho'; [|discriminate].
+    inversion Ho'; subst o'; clear Ho'. simpl.
+    rewrite Hvs, (votes_for_insert_some _ _ _ _ _ Ev). simpl.
+    rewrite (T1 i o Eo). lia.
+  - rewrite Hvs, Hlen. apply map_Forall_insert_2; [|exact T2]. simpl. right. lia.
+Qed.
+
+(* explicit form of GovProposal.DoPunish, for an arbitrary slashed amount [sl] *)
+Definition slash_of (pw ratio : Z) : Z :=
+  wrap64 ((((pw mod two64) * (ratio mod two64)) mod two256 / 100) mod two64).
+
+Lemma prop_punish_none p a ratio : p_voters p !! a = None → prop_punish p a ratio = (p, 0).
+Proof. intros H. unfold prop_punish. rewrite H. reflexivity. Qed.
+
+Lemma prop_punish_spec p a ratio v : p_voters p !! a = Some v →
+  let sl := slash_of (v_power v) ratio in
+  let pw2 := v_power v - sl in
+  let p' := (prop_punish p a ratio).1 in
+  (prop_punish p a ratio).2 = sl ∧
+  p_voters p' = (if pw2 <=? 0 then delete a (p_voters p)
+                 else <[a := {| v_power := pw2; v_choice := v_choice v |}]> (p_voters p)) ∧
+  length (p_options p') = length (p_options p) ∧
+  (∀ i : nat, p_options p' !! i =
+     (λ o, set_votes (o_votes o - (if v_choice v =? Z.of_nat i then v_power v else 0)
+                                + (if (v_choice v =? Z.of_nat i) && negb (pw2 <=? 0) then pw2 else 0)) o)
+       <$> p_options p !! i) ∧
+  p_total p' = p_total p - sl ∧ p_majority p' = ((p_total p - sl) * 2) `quot` 3 ∧
+  p_hash p' = p_hash p ∧ p_start p' = p_start p ∧ p_end p' = p_end p ∧ p_apply p' = p_apply p ∧
+  p_opttype p' = p_opttype p ∧ p_major p' = p_major p.
+Proof.
+  intros Ev. unfold prop_punish. rewrite Ev.
+  destruct (cancel_vote (p_options p) v) as [o1 v1] eqn:E1.
+  destruct (cancel_vote_spec _ _ _ _ E1) as (A1 & A2 & A3 & A4).
+  rewrite A1. fold (slash_of (v_power v) ratio). cbv zeta.
+  set (sl := slash_of (v_power v) ratio). cbn [v_power v_choice].
+  destruct (v_power v - sl <=? 0) eqn:Ele.
+  { simpl. split; [reflexivity|]. split; [reflexivity|]. split; [exact A3|]. split; [|repeat split].
+    intros i. rewrite A4. destruct (p_options p !! i) as [o|]; simpl; [|reflexivity].
+    rewrite andb_false_r. f_equal. f_equal. lia. }
+  destruct (0 <=? v_choice v) eqn:Ec.
+  - apply Z.leb_le in Ec.
+    destruct (do_vote o1 {| v_power := v_power v - sl; v_choice := v_choice v1 |} (v_choice v)) as [o' v'] eqn:E2.
+    destruct (do_vote_spec _ _ _ _ _ Ec E2) as (B1 & B2 & B3). simpl in B1, B3.
+    simpl. split; [reflexivity|]. split; [rewrite B1; reflexivity|]. split; [congruence|].
+    split; [|repeat split].
+    intros i. rewrite B3, A4. destruct (p_options p !! i) as [o|]; simpl; [|reflexivity].
+    rewrite andb_true_r. reflexivity.
+  - rewrite A2. simpl. split; [reflexivity|]. split; [reflexivity|]. split; [exact A3|].
+    split; [|repeat split].
+    apply Z.leb_gt in Ec.
+    intros i. rewrite A4. destruct (p_options p !! i) as [o|]; simpl; [|reflexivity].
+    assert (E' : v_choice v =? Z.of_nat i = false) by (apply Z.eqb_neq; lia). rewrite E'. simpl.
+    f_equal. f_equal. lia.
+Qed.
+
+(* slashing a voter keeps the tally invariant — for ANY slash amount, hence without range
+   hypotheses *)
+Lemma prop_punish_tally p a ratio : tally_ok p → tally_ok (prop_punish p a ratio).1.
+Proof.
+  intros (T1 & T2). destruct (p_voters p !! a) as [v|] eqn:Ev.
+  2:{ rewrite prop_punish_none by exact Ev. split; assumption. }
+  destruct (prop_punish_spec p a ratio v Ev) as (_ & Hvs & Hlen & Hopt & _).
+  cbv zeta in Hvs, Hlen, Hopt.
+  set (p' := (prop_punish p a ratio).1) in *. set (pw2 := v_power v - slash_of (v_power v) ratio) in *.
+  split.
+  - intros i o' Ho'. rewrite Hopt in Ho'.
+    destruct (p_options p !! i) as [o|] eqn:Eo; simpl in Ho'; [|discriminate].
+    inversion Ho'; subst o'; clear Ho'. simpl. rewrite (T1 i o Eo), Hvs.
+    destruct (pw2 <=? 0).
+    + rewrite (votes_for_delete _ _ _ _ Ev). rewrite andb_false_r. lia.
+    + rewrite (votes_for_insert_some _ _ _ _ _ Ev). simpl. rewrite andb_true_r. lia.
+  - rewrite Hvs, Hlen. destruct (pw2 <=? 0).
+    + apply map_Forall_delete. exact T2.
+    + apply map_Forall_insert_2; [|exact T2]. simpl. exact (T2 a v Ev).
+Qed.
+
+(* ---- the slashed amount and the bookkeeping of total / majority power *)
+
+Local Transparent two256 two64 two63.
+Lemma slash_of_small pw ratio : 0 ≤ pw < two63 → 0 ≤ ratio ≤ 100 →
+  slash_of pw ratio = (pw * ratio) / 100 ∧ 0 ≤ slash_of pw ratio ≤ pw.
+Proof.
+  intros Hp Hr. unfold slash_of, two63, two64, two256 in *.
+  assert (Hx : 0 ≤ pw * ratio ≤ pw * 100).
+  { split; [apply Z.mul_nonneg_nonneg; lia|apply Z.mul_le_mono_nonneg_l; lia]. }
+  rewrite (Z.mod_small pw) by lia. rewrite (Z.mod_small ratio) by lia.
+  rewrite (Z.mod_small (pw * ratio)) by lia.
+  assert (Hq : 0 ≤ pw * ratio / 100 ≤ pw).
+  { split; [apply Z.div_pos; lia|]. apply Z.div_le_upper_bound; lia. }
+  rewrite (Z.mod_small (pw * ratio / 100)) by lia.
+  rewrite wrap64_small by (unfold in64, two63; lia). split; [reflexivity|exact Hq].
+Qed.
+
+(* no int64 wrap in the voting window: the check "endVotingHeight < startVotingHeight" of
+   ValidateTrx rejects every wrapped sum when the operands are int64 values and start >= 0 *)
+Lemma wrap64_window start period : in64 start → in64 period → 0 ≤ start →
+  start ≤ wrap64 (start + period) → wrap64 (start + period) = start + period ∧ 0 ≤ period.
+Proof.
+  unfold in64, wrap64, two63, two64. intros Hs Hp H0 H.
+  assert (Hm := Z.mod_pos_bound (start + period + 2 ^ 63) (2 ^ 64) eq_refl).
+  assert (Hd := Z.div_mod (start + period + 2 ^ 63) (2 ^ 64) ltac:(lia)).
+  set (q := (start + period + 2 ^ 63) / 2 ^ 64) in *.
+  set (r := (start + period + 2 ^ 63) mod 2 ^ 64) in *.
+  assert (q = 0 ∨ q = 1 ∨ q = -1 ∨ q < -1 ∨ q > 1) as [Hq|[Hq|[Hq|[Hq|Hq]]]] by lia; try lia; nia.
+Qed.
+Local Opaque two256 two64 two63.
+
+Lemma prop_punish_total p a ratio :
+  0 ≤ ratio ≤ 100 → powers_ok p → total_ok p → maj_ok p →
+  let p' := (prop_punish p a ratio).1 in total_ok p' ∧ maj_ok p' ∧ powers_ok p'.
+Proof.
+  intros Hr Hpw Ht Hm. simpl. destruct (p_voters p !! a) as [v|] eqn:Ev.
+  2:{ rewrite prop_punish_none by exact Ev. auto. }
+  destruct (prop_punish_spec p a ratio v Ev) as (_ & Hvs & _ & _ & Htot & Hmaj & _).
+  cbv zeta in Hvs, Htot, Hmaj.
+  destruct (slash_of_small (v_power v) ratio (Hpw a v Ev) Hr) as (_ & Hsl).
+  unfold total_ok, maj_ok, powers_ok in *. rewrite Hvs, Htot, Hmaj.
+  split; [|split; [reflexivity|]].
+  - destruct (v_power v - slash_of (v_power v) ratio <=? 0) eqn:E.
+    + apply Z.leb_le in E. unfold total_power. rewrite (sum_map_delete _ _ _ _ Ev), Ht.
+      unfold total_power. lia.
+    + unfold total_power. rewrite (sum_map_insert_some _ _ _ _ _ Ev), Ht. unfold total_power. simpl. lia.
+  - destruct (v_power v - slash_of (v_power v) ratio <=? 0) eqn:E.
+    + apply map_Forall_delete. exact Hpw.
+    + apply Z.leb_gt in E. apply map_Forall_insert_2; [|exact Hpw]. simpl.
+      pose proof (Hpw a v Ev) as Hv. simpl in Hv. lia.
+Qed.
+
+(* without the bound on the slashing ratio the recorded total is NOT the sum of the voters' powers
+   any more: a ratio of 150 removes the voter but subtracts more than his power *)
+Lemma prop_punish_total_refuted :
+  ∃ p a ratio, powers_ok p ∧ total_ok p ∧ maj_ok p ∧ ¬ total_ok (prop_punish p a ratio).1.
+Proof.
+  exists {| p_hash := 1%N; p_start := 5; p_end := 10; p_apply := 20; p_total := 30; p_majority := 20;
+            p_voters := {[ 1%N := {| v_power := 10; v_choice := -1 |}; 2%N := {| v_power := 20; v_choice := -1 |} ]};
+            p_opttype := 0; p_options := [{| o_id := 1%N; o_params := None; o_votes := 0 |}]; p_major := None |},
+         1%N, 150.
+  split.
+  { intros k v. simpl. intros H. apply lookup_insert_Some in H. destruct H as [(<- & <-)|(_ & H)].
+    - Local Transparent two63. unfold two63. Local Opaque two63. simpl. lia.
+    - apply lookup_singleton_Some in H. destruct H as (<- & <-).
+      Local Transparent two63. unfold two63. Local Opaque two63. simpl. lia. }
+  split; [vm_compute; reflexivity|]. split; [vm_compute; reflexivity|].
+  vm_compute. discriminate.
+Qed.
+
+(* ================================================================== 13. G2: submission *)
+
+Lemma new_proposal_voters_choice vals h st pe ap ot opts a v :
+  p_voters (new_proposal vals h st pe ap ot opts) !! a = Some v →
+  v_choice v = -1 ∧ (a, v_power v) ∈ vals.
+Proof.
+  simpl. intros H. apply elem_of_list_to_map_2 in H. apply elem_of_list_fmap in H.
+  destruct H as ([b pw] & Heq & Hin). inversion Heq; subst. simpl. auto.
+Qed.
+
+Lemma new_proposal_voters_in vals h st pe ap ot opts a pw :
+  NoDup vals.*1 → (a, pw) ∈ vals →
+  p_voters (new_proposal vals h st pe ap ot opts) !! a = Some {| v_power := pw; v_choice := -1 |}.
+Proof.
+  simpl. intros Hnd Hin. apply elem_of_list_to_map_1.
+  - rewrite <- list_fmap_compose. simpl.
+    replace (fst ∘ (λ v : addr * Z, (v.1, {| v_power := v.2; v_choice := -1 |}))) with (@fst addr Z); [exact Hnd|].
+    reflexivity.
+  - apply elem_of_list_fmap. exists (a, pw). auto.
+Qed.
+
+Lemma new_proposal_tally vals h st pe ap ot opts :
+  tally_ok (new_proposal vals h st pe ap ot opts).
+Proof.
+  split.
+  - intros i o Ho. simpl in Ho. rewrite list_lookup_fmap in Ho.
+    destruct (opts !! i) as [x|]; simpl in Ho; [|discriminate]. inversion Ho; subst; clear Ho. simpl.
+    unfold votes_for. symmetry. apply sum_map_zero. intros k v Hk.
+    change (p_voters (new_proposal vals h st pe ap ot opts) !! k = Some v) in Hk.
+    apply new_proposal_voters_choice in Hk. destruct Hk as (-> & _).
+    destruct (-1 =? Z.of_nat i) eqn:E; [apply Z.eqb_eq in E; lia|reflexivity].
+  - intros k v Hk. apply new_proposal_voters_choice in Hk. left. apply Hk.
+Qed.
+
+Lemma new_proposal_total vals h st pe ap ot opts :
+  NoDup vals.*1 → total_ok (new_proposal vals h st pe ap ot opts).
+Proof.
+  unfold total_ok, total_power. simpl. induction vals as [|[a pw] vals IH]; intros Hnd; simpl.
+  - rewrite sum_map_empty. reflexivity.
+  - simpl in Hnd. apply NoDup_cons in Hnd. destruct Hnd as (Ha & Hnd).
+    rewrite sum_map_insert.
+    + simpl. rewrite <- IH by exact Hnd. reflexivity.
+    + apply not_elem_of_list_to_map_1. rewrite <- list_fmap_compose. exact Ha.
+Qed.
+
+Lemma new_proposal_powers vals h st pe ap ot opts :
+  Forall (λ v : addr * Z, 0 ≤ v.2 < two63) vals → powers_ok (new_proposal vals h st pe ap ot opts).
+Proof.
+  intros Hf k v Hk. apply new_proposal_voters_choice in Hk. destruct Hk as (_ & Hin).
+  rewrite Forall_forall in Hf. apply (Hf _ Hin).
+Qed.
+
+Lemma new_proposal_options vals h st pe ap ot opts :
+  Forall (λ o, o_votes o = 0) (p_options (new_proposal vals h st pe ap ot opts)) ∧
+  length (p_options (new_proposal vals h st pe ap ot opts)) = length opts.
+Proof.
+  simpl. split; [|apply map_length]. apply Forall_forall. intros o Ho.
+  apply elem_of_list_fmap in Ho. destruct Ho as (x & -> & _). reflexivity.
+Qed.
+
+(* what ValidateTrx demands of a proposal transaction *)
+Lemma gov_validate_proposal s t : t_type t = TRX_PROPOSAL → gov_validate s t = None →
+  is_validator s (t_from t) = true ∧ props (work s) !! t_hash t = None ∧
+  ∃ start period apply opttype opts pok,
+    t_payload t = PProposal start period apply opttype opts pok ∧
+    b_height (bctx s) < start ∧
+    g_minVotingPeriodBlocks (gparams s) ≤ period ≤ g_maxVotingPeriodBlocks (gparams s) ∧
+    (opttype = PROPOSAL_GOVPARAMS → pok = true) ∧
+    start ≤ wrap64 (start + period) ∧
+    wrap64 (wrap64 (start + period) + g_lazyApplyingBlocks (gparams s)) ≤ apply ∧
+    wrap64 (start + period) ≤ apply ∧ opts ≠ [].
+Proof.
+  intros Ht. unfold gov_validate. rewrite Ht. simpl.
+  destruct (negb (t_to t =? 0)%N); [discriminate|].
+  destruct (is_validator s (t_from t)); simpl; [|discriminate].
+  destruct (t_payload t) as [ | | | start period apply opttype opts pok | | | ]; try discriminate.
+  destruct (props (work s) !! t_hash t) as [q|]; [discriminate|].
+  destruct (start <=? b_height (bctx s)) eqn:E1; [discriminate|].
+  destruct (g_maxVotingPeriodBlocks (gparams s) <? period) eqn:E2; [discriminate|].
+  destruct (period <? g_minVotingPeriodBlocks (gparams s)) eqn:E3; [discriminate|]. simpl.
+  destruct ((opttype =? PROPOSAL_GOVPARAMS) && negb pok) eqn:E4; [discriminate|].
+  destruct (wrap64 (start + period) <? start) eqn:E5; [discriminate|].
+  destruct (apply <? wrap64 (wrap64 (start + period) + g_lazyApplyingBlocks (gparams s))) eqn:E6; [discriminate|].
+  destruct (apply <? wrap64 (start + period)) eqn:E7; [discriminate|]. simpl.
+  destruct opts as [|o opts]; [discriminate|]. intros _.
+  split; [reflexivity|]. split; [reflexivity|].
+  exists start, period, apply, opttype, (o :: opts), pok.
+  apply Z.leb_gt in E1. apply Z.ltb_ge in E2, E3, E5, E6, E7.
+  repeat split; try lia; try discriminate.
+  intros ->. simpl in E4. destruct pok; [reflexivity|discriminate].
+Qed.
+
+(* G2.  A delivered proposal transaction comes from a current validator, has a fresh hash, and
+   stores exactly [new_proposal (lastvals s) ...]: the voter table is the validator set of the
+   moment with its powers and no choice, total = sum of those powers, majority =
+   floor(2*total/3), no votes, no major option; the voting window starts after the current
+   height and lasts between the configured bounds; nothing else in the proposal ledger changes. *)
+Theorem proposal_submission s t s' gas :
+  deliver s t = (s', Ok gas) → t_type t = TRX_PROPOSAL →
+  is_validator s (t_from t) = true ∧ props (work s) !! t_hash t = None ∧
+  ∃ start period apply opttype opts pok,
+    t_payload t = PProposal start period apply opttype opts pok ∧
+    let p := new_proposal (lastvals s) (t_hash t) start period apply opttype opts in
+    props (work s') = <[t_hash t := p]> (props (work s)) ∧
+    b_height (bctx s) < p_start p ∧
+    g_minVotingPeriodBlocks (gparams s) ≤ period ≤ g_maxVotingPeriodBlocks (gparams s) ∧
+    p_start p ≤ p_end p ∧ p_end p = wrap64 (start + period) ∧
+    wrap64 (p_end p + g_lazyApplyingBlocks (gparams s)) ≤ p_apply p ∧ p_end p ≤ p_apply p ∧
+    opts ≠ [] ∧ (opttype = PROPOSAL_GOVPARAMS → pok = true) ∧
+    p_total p = sumZ_with snd (lastvals s) ∧ p_majority p = (p_total p * 2) `quot` 3 ∧
+    p_major p = None ∧ Forall (λ o, o_votes o = 0) (p_options p) ∧ tally_ok p ∧
+    (∀ a v, p_voters p !! a = Some v → v_choice v = -1 ∧ (a, v_power v) ∈ lastvals s).
+Proof.
+  intros Hd Ht.
+  destruct (deliver_inv _ _ _ _ Hd) as (_ & _ & _ & [(_ & Hn)|(Hg & sender & l0 & l' & Hs & Hc0 & Hc1 & Hgv & Hg0 & Hs0 & Hge & Hp & _)]).
+  { specialize (Hn gas eq_refl). unfold is_gov in Hn. rewrite Ht in Hn. discriminate. }
+  destruct (gov_validate_proposal _ _ Ht Hgv) as (Hval & Hfresh & start & period & apply & opttype & opts & pok & Hpl & V1 & V2 & V3 & V4 & V5 & V6 & V7).
+  destruct (gov_execute_proposal _ _ _ _ Ht Hge) as (start' & period' & apply' & opttype' & opts' & pok' & Hpl' & ->).
+  rewrite Hpl in Hpl'. inversion Hpl'; subst start' period' apply' opttype' opts' pok'. clear Hpl'.
+  split; [exact Hval|]. split; [exact Hfresh|].
+  exists start, period, apply, opttype, opts, pok. split; [exact Hpl|].
+  destruct Hg0 as (G1 & _). simpl in Hp. rewrite G1 in Hp. cbv zeta.
+  split; [exact Hp|]. simpl p_start. simpl p_end. simpl p_apply. simpl p_total. simpl p_majority. simpl p_major.
+  repeat split; auto; try lia.
+  - apply new_proposal_options.
+  - apply (new_proposal_tally (lastvals s) (t_hash t) start period apply opttype opts).
+  - apply (new_proposal_tally (lastvals s) (t_hash t) start period apply opttype opts).
+  - eapply new_proposal_voters_choice; eassumption.
+  - eapply new_proposal_voters_choice; eassumption.
+Qed.
+Print Assumptions proposal_submission.
+
+(* G2, no int64 wrap: for int64 payload fields and a non-negative height the window end is the
+   plain sum, and the applying height respects the lazy-applying delay whenever that sum is an
+   int64 too *)
+Corollary proposal_submission_nowrap s t s' gas start period apply opttype opts pok :
+  deliver s t = (s', Ok gas) → t_type t = TRX_PROPOSAL →
+  t_payload t = PProposal start period apply opttype opts pok →
+  in64 start → in64 period → 0 ≤ b_height (bctx s) →
+  let p := new_proposal (lastvals s) (t_hash t) start period apply opttype opts in
+  p_end p = start + period ∧ 0 ≤ period ∧ start + period < two63 ∧
+  (in64 (start + period + g_lazyApplyingBlocks (gparams s)) →
+   p_end p + g_lazyApplyingBlocks (gparams s) ≤ p_apply p).
+Proof.
+  intros Hd Ht Hpl Hs Hp Hh.
+  destruct (proposal_submission _ _ _ _ Hd Ht) as (_ & _ & st & pe & ap & ot & os & pk & Hpl' & H).
+  rewrite Hpl in Hpl'. inversion Hpl'; subst st pe ap ot os pk. clear Hpl'.
+  cbv zeta in H. destruct H as (_ & H1 & _ & H3 & _ & H5 & _). simpl in H1, H3, H5. simpl.
+  destruct (wrap64_window start period Hs Hp ltac:(lia) H3) as (W1 & W2).
+  split; [exact W1|]. split; [exact W2|]. split.
+  - pose proof (wrap64_range (start + period)) as R. rewrite W1 in R. destruct R. assumption.
+  - intros Hl. rewrite W1 in *. rewrite wrap64_small in H5 by exact Hl. exact H5.
+Qed.
+
+(* G2: no other kind of transaction creates or alters a proposal *)
+Theorem only_gov_tx_touch_proposals s t :
+  t_type t ≠ TRX_PROPOSAL → t_type t ≠ TRX_VOTING → props (work (deliver s t).1) = props (work s).
+Proof.
+  intros H1 H2. destruct (deliver s t) as [s' r] eqn:Hd. simpl.
+  destruct (deliver_inv _ _ _ _ Hd) as (_ & _ & _ & [(Hp & _)|(Hg & _)]); [exact Hp|].
+  unfold is_gov in Hg. apply orb_true_iff in Hg. destruct Hg as [E|E]; apply Z.eqb_eq in E; contradiction.
+Qed.
+
+(* ================================================================== 14. G3: voting *)
+
+Lemma gov_validate_voting s t : t_type t = TRX_VOTING → gov_validate s t = None →
+  ∃ ph choice p v,
+    t_payload t = PVoting ph choice ∧ props (work s) !! ph = Some p ∧
+    p_voters p !! t_from t = Some v ∧ 0 ≤ choice < Z.of_nat (length (p_options p)) ∧
+    p_start p ≤ b_height (bctx s) ≤ p_end p.
+Proof.
+  intros Ht. unfold gov_validate. rewrite Ht. simpl.
+  destruct (negb (t_to t =? 0)%N); [discriminate|].
+  destruct (t_payload t) as [ | | | | ph choice | | ]; try discriminate.
+  destruct (props (work s) !! ph) as [p|] eqn:Ep; [|discriminate].
+  destruct (p_voters p !! t_from t) as [v|] eqn:Ev; [|discriminate].
+  destruct (choice <? 0) eqn:E1; [discriminate|].
+  destruct (Z.of_nat (length (p_options p)) <=? choice) eqn:E2; [discriminate|]. simpl.
+  destruct (p_end p <? b_height (bctx s)) eqn:E3; [discriminate|].
+  destruct (b_height (bctx s) <? p_start p) eqn:E4; [discriminate|]. intros _.
+  exists ph, choice, p, v. apply Z.ltb_ge in E1, E3, E4. apply Z.leb_gt in E2.
+  repeat split; auto; lia.
+Qed.
+
+(* G3.  A delivered vote is cast by an address of the proposal's recorded voter table, for an
+   existing option, inside the voting window; afterwards that voter's entry carries the new
+   choice with the RECORDED power (the previous choice is cancelled first: the latest vote
+   replaces the earlier one), every other voter entry and every other proposal is unchanged, the
+   header of the proposal is unchanged, and the tally invariant is kept. *)
+Theorem voting s t s' gas :
+  deliver s t = (s', Ok gas) → t_type t = TRX_VOTING →
+  ∃ ph choice p v p',
+    t_payload t = PVoting ph choice ∧ props (work s) !! ph = Some p ∧
+    p_voters p !! t_from t = Some v ∧ 0 ≤ choice < Z.of_nat (length (p_options p)) ∧
+    p_start p ≤ b_height (bctx s) ≤ p_end p ∧
+    props (work s') = <[ph := p']> (props (work s)) ∧
+    p_voters p' = <[t_from t := {| v_power := v_power v; v_choice := choice |}]> (p_voters p) ∧
+    length (p_options p') = length (p_options p) ∧
+    (∀ i : nat, p_options p' !! i =
+       (λ o, set_votes (o_votes o - (if v_choice v =? Z.of_nat i then v_power v else 0)
+                                  + (if choice =? Z.of_nat i then v_power v else 0)) o) <$> p_options p !! i) ∧
+    p_hash p' = p_hash p ∧ p_start p' = p_start p ∧ p_end p' = p_end p ∧ p_apply p' = p_apply p ∧
+    p_total p' = p_total p ∧ p_majority p' = p_majority p ∧ p_opttype p' = p_opttype p ∧
+    p_major p' = p_major p ∧
+    (tally_ok p → tally_ok p').
+Proof.
+  intros Hd Ht.
+  assert (Hnp : t_type t ≠ TRX_PROPOSAL) by (rewrite Ht; discriminate).
+  destruct (deliver_inv _ _ _ _ Hd) as (_ & _ & _ & [(_ & Hn)|(Hg & sender & l0 & l' & Hs & Hc0 & Hc1 & Hgv & Hg0 & Hs0 & Hge & Hp & _)]).
+  { specialize (Hn gas eq_refl). unfold is_gov in Hn. rewrite Ht in Hn. discriminate. }
+  destruct (gov_validate_voting _ _ Ht Hgv) as (ph & choice & p & v & Hpl & Hpp & Hv & Hc & Hw).
+  destruct (gov_execute_voting _ _ _ _ Hnp Hge) as (ph' & choice' & p0 & p' & Hpl' & Hpp' & Hvote & ->).
+  rewrite Hpl in Hpl'. inversion Hpl'; subst ph' choice'. clear Hpl'.
+  destruct Hg0 as (G1 & _). rewrite G1 in Hpp'. simpl in Hp. rewrite G1 in Hp.
+  assert (p0 = p) by congruence. subst p0.
+  destruct (prop_vote_spec _ _ _ _ (proj1 Hc) Hvote) as (v' & Hv' & R).
+  assert (v' = v) by congruence. subst v'.
+  exists ph, choice, p, v, p'.
+  split; [exact Hpl|]. split; [exact Hpp|]. split; [exact Hv|]. split; [exact Hc|]. split; [exact Hw|].
+  split; [exact Hp|].
+  destruct R as (R1 & R2 & R3 & R4 & R5 & R6 & R7 & R8 & R9 & R10 & R11).
+  split; [exact R1|]. split; [exact R2|]. split; [exact R3|]. split; [exact R4|]. split; [exact R5|].
+  split; [exact R6|]. split; [exact R7|]. split; [exact R8|]. split; [exact R9|]. split; [exact R10|].
+  split; [exact R11|].
+  intros Htal. eapply prop_vote_tally; eassumption.
+Qed.
+Print Assumptions voting.
+
+(* a vote never creates a proposal and touches no proposal but the one voted on *)
+Corollary voting_other_proposals s t s' gas ph choice k :
+  deliver s t = (s', Ok gas) → t_type t = TRX_VOTING → t_payload t = PVoting ph choice → k ≠ ph →
+  props (work s') !! k = props (work s) !! k.
+Proof.
+  intros Hd Ht Hpl Hk.
+  destruct (voting _ _ _ _ Hd Ht) as (ph' & c' & p & v & p' & Hpl' & _ & _ & _ & _ & Hp & _).
+  rewrite Hpl in Hpl'. inversion Hpl'; subst. rewrite Hp. apply lookup_insert_ne. auto.
+Qed.
+
+(* G3, failed votes.  INTENDED: a failed governance transaction changes no proposal.  As written
+   this is false of the model without range hypotheses: postRunTrx can fail to collect the fee
+   AFTER the vote was counted (see [failed_vote_refuted] below).  It holds when the gas price is
+   in the range of [params_ok] and the transaction fields are in their machine ranges. *)
+Local Transparent two256 two255 two64 two63.
+Lemma fee_collectable g sender t :
+  params_ok g → tx_wf t →
+  common_validation0 g t = None → common_validation1 sender t = None →
+  sub_balance sender (fee_of t) ≠ None.
+Proof.
+  intros (Hgp & _) (Ham & Hpr & Hgas & _).
+  unfold common_validation0, common_validation1, sub_balance.
+  destruct (negb (t_from_ok t)); [discriminate|]. destruct (negb (t_to_ok t)); [discriminate|].
+  destruct (sign256 (t_amount t) <? 0) eqn:E1; [discriminate|].
+  destruct (maxInt64 <? t_gas t) eqn:E2; [discriminate|].
+  destruct (sign256 (t_price t) <? 0) eqn:E3; [discriminate|].
+  destruct (t_price t =? g_gasPrice g) eqn:E4; simpl; [|discriminate].
+  destruct (fee_of t <? mul256 (g_minTrxGas g) (g_gasPrice g)); [discriminate|].
+  destruct (negb (t_sigok t)); [discriminate|]. intros _.
+  destruct (a_bal sender <? add256 (fee_of t) (t_amount t)) eqn:E5; [discriminate|].
+  destruct (negb (a_nonce sender =? t_nonce t)); [discriminate|]. intros _.
+  apply Z.eqb_eq in E4. apply Z.ltb_ge in E2, E5. unfold maxInt64 in E2.
+  assert (Hfee : fee_of t = t_price t * t_gas t ∧ 0 ≤ t_price t * t_gas t < 2 ^ 255).
+  { unfold fee_of, mul256, wrap256, two256.
+    assert (0 ≤ t_price t * t_gas t ≤ (2 ^ 192 - 1) * 9223372036854775807).
+    { split; [apply Z.mul_nonneg_nonneg; lia|]. apply Z.mul_le_mono_nonneg; lia. }
+    split; [apply Z.mod_small; lia|lia]. }
+  destruct Hfee as (Hf & Hfr).
+  assert (Hamt : t_amount t < 2 ^ 255).
+  { unfold sign256, two255 in E1. destruct (t_amount t =? 0) eqn:Ez; [apply Z.eqb_eq in Ez; lia|].
+    destruct (2 ^ 255 <=? t_amount t) eqn:Eh; [discriminate|]. apply Z.leb_gt in Eh. exact Eh. }
+  assert (Hs : sign256 (fee_of t) <? 0 = false).
+  { unfold sign256, two255. destruct (fee_of t =? 0); [reflexivity|].
+    destruct (2 ^ 255 <=? fee_of t) eqn:Eh; [apply Z.leb_le in Eh; lia|reflexivity]. }
+  rewrite Hs.
+  assert (Hadd : add256 (fee_of t) (t_amount t) = fee_of t + t_amount t).
+  { unfold add256, wrap256, two256. apply Z.mod_small. unfold two256 in Ham. lia. }
+  rewrite Hadd in E5.
+  destruct (a_bal sender <? fee_of t) eqn:E6; [apply Z.ltb_lt in E6; lia|]. discriminate.
+Qed.
+Local Opaque two256 two255 two64 two63.
+
+Theorem failed_tx_changes_no_proposal s t s' e :
+  params_ok (gparams s) → tx_wf t →
+  deliver s t = (s', Err e) → props (work s') = props (work s).
+Proof.
+  intros Hg Hw Hd.
+  destruct (deliver_inv _ _ _ _ Hd) as (_ & _ & _ & [(Hp & _)|(_ & sender & l0 & l' & Hs & Hc0 & Hc1 & _ & _ & _ & _ & _ & [Hr|(_ & Hsb)])]).
+  - exact Hp.
+  - discriminate.
+  - exfalso. eapply fee_collectable; eassumption.
+Qed.
+Print Assumptions failed_tx_changes_no_proposal.
+
+(* ================================================================== 15. G4: the sort of updateMajorOption *)
+
+Definition desc (l : list voption) : Prop := StronglySorted (λ a b, o_votes b ≤ o_votes a) l.
+
+Lemma insert_opt_perm x l : insert_opt x l ≡ₚ x :: l.
+Proof.
+  induction l as [|y r IH]; simpl; [reflexivity|].
+  destruct (o_votes y <? o_votes x); [reflexivity|]. rewrite IH. apply Permutation_swap.
+Qed.
+
+Lemma insert_opt_desc x l : desc l → desc (insert_opt x l).
+Proof.
+  unfold desc. induction l as [|y r IH]; intros H; simpl.
+  - constructor; constructor.
+  - inversion H as [|? ? Hr Hf]; subst. destruct (o_votes y <? o_votes x) eqn:E.
+    + apply Z.ltb_lt in E. constructor; [exact H|]. constructor; [lia|].
+      eapply Forall_impl; [exact Hf|]. intros z Hz; simpl in *; lia.
+    + apply Z.ltb_ge in E. constructor; [apply IH; exact Hr|].
+      apply Forall_forall. intros z Hz. rewrite insert_opt_perm in Hz.
+      apply elem_of_cons in Hz. destruct Hz as [->|Hz]; [lia|].
+      rewrite Forall_forall in Hf. apply Hf. exact Hz.
+Qed.
+
+Lemma filter_votes_none v (l : list voption) :
+  Forall (λ o, o_votes o ≠ v) l → filter (λ o, o_votes o = v) l = [].
+Proof.
+  induction l as [|y r IH]; intros H; [reflexivity|].
+  apply Forall_cons in H. destruct H as (Hy & Hr).
+  rewrite filter_cons_False by exact Hy. apply IH. exact Hr.
+Qed.
+
+(* stability of one insertion: the new element goes behind all elements with the same votes *)
+Lemma insert_opt_filter v x l : desc l →
+  filter (λ o, o_votes o = v) (insert_opt x l) =
+  filter (λ o, o_votes o = v) l ++ (if decide (o_votes x = v) then [x] else []).
+Proof.
+  unfold desc. induction l as [|y r IH]; intros H; simpl.
+  - rewrite filter_cons, filter_nil. reflexivity.
+  - inversion H as [|? ? Hr Hf]; subst. destruct (o_votes y <? o_votes x) eqn:E.
+    + apply Z.ltb_lt in E. destruct (decide (o_votes x = v)) as [Hx|Hx].
+      * rewrite (filter_cons_True _ x) by exact Hx.
+        rewrite (filter_votes_none v (y :: r)); [reflexivity|].
+        constructor; [lia|]. eapply Forall_impl; [exact Hf|]. intros z Hz; simpl in *; lia.
+      * rewrite (filter_cons_False _ x) by exact Hx. rewrite app_nil_r. reflexivity.
+    + rewrite !(filter_cons _ y). destruct (decide (o_votes y = v)).
+      * rewrite (IH Hr). reflexivity.
+      * apply IH. exact Hr.
+Qed.
+
+Lemma sort_acc_spec l : ∀ acc, desc acc →
+  desc (foldl (λ acc x, insert_opt x acc) acc l) ∧
+  foldl (λ acc x, insert_opt x acc) acc l ≡ₚ acc ++ l ∧
+  ∀ v, filter (λ o, o_votes o = v) (foldl (λ acc x, insert_opt x acc) acc l) =
+       filter (λ o, o_votes o = v) acc ++ filter (λ o, o_votes o = v) l.
+Proof.
+  induction l as [|x l IH]; intros acc H; simpl.
+  - rewrite app_nil_r. split; [exact H|]. split; [reflexivity|]. intros v. rewrite filter_nil, app_nil_r. reflexivity.
+  - destruct (IH (insert_opt x acc) (insert_opt_desc x acc H)) as (A & B & C).
+    split; [exact A|]. split.
+    + rewrite B, insert_opt_perm. apply Permutation_middle.
+    + intros v. rewrite C, (insert_opt_filter v x acc H), (filter_cons _ x).
+      destruct (decide (o_votes x = v)); rewrite <- app_assoc; reflexivity.
+Qed.
+
+(* G4: sort_opts is a stable sort by votes, descending *)
+Theorem sort_opts_spec l :
+  desc (sort_opts l) ∧ sort_opts l ≡ₚ l ∧
+  ∀ v, filter (λ o, o_votes o = v) (sort_opts l) = filter (λ o, o_votes o = v) l.
+Proof.
+  unfold sort_opts. destruct (sort_acc_spec l [] ltac:(constructor)) as (A & B & C).
+  split; [exact A|]. split; [exact B|]. intros v. rewrite C. reflexivity.
+Qed.
+
+(* the first option after sorting is a maximal-vote option, the earliest among equals *)
+Theorem sort_opts_head l o r : sort_opts l = o :: r →
+  o ∈ l ∧ (∀ o', o' ∈ l → o_votes o' ≤ o_votes o) ∧
+  ∃ l1 l2, l = l1 ++ o :: l2 ∧ Forall (λ z, o_votes z < o_votes o) l1.
+Proof.
+  intros Hs. destruct (sort_opts_spec l) as (A & B & C). rewrite Hs in A, B. specialize (C (o_votes o)).
+  rewrite Hs in C. unfold desc in A. inversion A as [|? ? Hr Hf]; subst.
+  assert (Hmax : ∀ o', o' ∈ l → o_votes o' ≤ o_votes o).
+  { intros o' Ho'. rewrite <- B in Ho'. apply elem_of_cons in Ho'. destruct Ho' as [->|Ho']; [lia|].
+    rewrite Forall_forall in Hf. apply Hf. exact Ho'. }
+  split; [rewrite <- B; apply elem_of_list_here|]. split; [exact Hmax|].
+  rewrite filter_cons_True in C by reflexivity.
+  assert (Hh : head (filter (λ o0 : voption, o_votes o0 = o_votes o) l) = Some o) by (rewrite <- C; reflexivity).
+  apply head_filter_Some in Hh. destruct Hh as (l1 & l2 & -> & Hl1).
+  exists l1, l2. split; [reflexivity|].
+  apply Forall_forall. intros z Hz. rewrite Forall_forall in Hl1. specialize (Hl1 z Hz). simpl in Hl1.
+  assert (o_votes z ≤ o_votes o) by (apply Hmax; apply elem_of_app; left; exact Hz). lia.
+Qed.
+
+(* explicit form of updateMajorOption *)
+Lemma update_major_spec p p' : update_major p = Ok p' →
+  ∃ o r, sort_opts (p_options p) = o :: r ∧ p_options p' = o :: r ∧
+    p_major p' = (if p_majority p <=? o_votes o then Some o else p_major p) ∧
+    p_hash p' = p_hash p ∧ p_start p' = p_start p ∧ p_end p' = p_end p ∧ p_apply p' = p_apply p ∧
+    p_total p' = p_total p ∧ p_majority p' = p_majority p ∧ p_voters p' = p_voters p ∧
+    p_opttype p' = p_opttype p.
+Proof.
+  unfold update_major. destruct (sort_opts (p_options p)) as [|o r] eqn:Es; [discriminate|].
+  intros H; inversion H; subst; clear H. simpl. exists o, r. repeat split.
+Qed.
+
+(* what a frozen proposal certifies: its major option is an option of the proposal, no option has
+   more votes, it holds at least the majority power = floor(2*total/3), and its votes are the summed
+   recorded power of the recorded voters who chose it *)
+Definition frozen_ok (p : proposal) : Prop :=
+  ∃ o, p_major p = Some o ∧ o ∈ p_options p ∧ (∀ o', o' ∈ p_options p → o_votes o' ≤ o_votes o) ∧
+       p_majority p ≤ o_votes o ∧ p_majority p = (p_total p * 2) `quot` 3 ∧
+       ∃ i : Z, o_votes o = votes_for (p_voters p) i.
+
+(* the invariant of an open (not yet frozen) proposal that needs no range hypothesis *)
+Definition open_ok (p : proposal) : Prop := tally_ok p ∧ maj_ok p ∧ p_major p = None.
+
+Lemma update_major_frozen p p' :
+  open_ok p → update_major p = Ok p' →
+  match p_major p' with
+  | Some o => frozen_ok p' ∧ p_majority p ≤ o_votes o ∧
+              ∃ l1 l2, p_options p = l1 ++ o :: l2 ∧ Forall (λ z, o_votes z < o_votes o) l1 ∧
+                       Forall (λ z, o_votes z ≤ o_votes o) l2
+  | None => ∀ o, o ∈ p_options p → o_votes o < p_majority p
+  end.
+Proof.
+  intros ((T1 & T2) & Hm & Hnone) Hu.
+  destruct (update_major_spec _ _ Hu) as (o & r & Hs & Hopts & Hmaj & _ & _ & _ & _ & Htot & Hmj & Hvs & _).
+  destruct (sort_opts_head _ _ _ Hs) as (Hin & Hmax & l1 & l2 & Hl & Hl1).
+  rewrite Hnone in Hmaj. rewrite Hmaj.
+  destruct (p_majority p <=? o_votes o) eqn:E.
+  - apply Z.leb_le in E. split; [|split; [exact E|]].
+    + exists o. split; [exact Hmaj|]. rewrite Hopts, Hmj, Htot, Hvs.
+      destruct (sort_opts_spec (p_options p)) as (_ & B & _). rewrite Hs in B.
+      split; [apply elem_of_list_here|]. split; [intros o' Ho'; apply Hmax; rewrite <- B; exact Ho'|].
+      split; [exact E|]. split; [exact Hm|].
+      apply elem_of_list_lookup in Hin. destruct Hin as (i & Hi). exists (Z.of_nat i). apply T1. exact Hi.
+    + exists l1, l2. split; [exact Hl|]. split; [exact Hl1|].
+      apply Forall_forall. intros z Hz. apply Hmax. rewrite Hl. apply elem_of_app. right.
+      apply elem_of_cons. right. exact Hz.
+  - apply Z.leb_gt in E. intros o' Ho'. specialize (Hmax o' Ho'). lia.
+Qed.
+
+(* ================================================================== 16. invariants of the proposal ledgers over runs *)
+
+Lemma new_proposal_open vals h st pe ap ot opts : open_ok (new_proposal vals h st pe ap ot opts).
+Proof. split; [apply new_proposal_tally|]. split; reflexivity. Qed.
+
+Lemma prop_punish_open p a ratio : open_ok p → open_ok (prop_punish p a ratio).1.
+Proof.
+  intros (T & M & N). split; [apply prop_punish_tally; exact T|].
+  destruct (p_voters p !! a) as [v|] eqn:Ev.
+  2:{ rewrite prop_punish_none by exact Ev. split; assumption. }
+  destruct (prop_punish_spec p a ratio v Ev) as (_ & _ & _ & _ & Htot & Hmaj & _ & _ & _ & _ & _ & Hmj).
+  cbv zeta in Htot, Hmaj, Hmj. unfold maj_ok. rewrite Htot, Hmaj, Hmj. split; [reflexivity|exact N].
+Qed.
+
+Lemma gov_punish_forall (P : proposal → Prop) l ratio evi :
+  (∀ p a, P p → P (prop_punish p a ratio).1) →
+  map_Forall (λ _ p, P p) (props l) → map_Forall (λ _ p, P p) (props (gov_punish l ratio evi)).
+Proof.
+  intros HP. unfold gov_punish. revert l. induction evi as [|a evi IH]; intros l Hl; simpl; [exact Hl|].
+  apply IH. clear IH.
+  generalize (List.filter (λ kp : hash * proposal, match p_voters kp.2 !! a with Some _ => true | None => false end)
+                (sorted_items (props l))).
+  intros ts. revert l Hl. induction ts as [|kp ts IH]; intros l Hl; simpl; [exact Hl|].
+  apply IH. destruct (props l !! kp.1) as [p|] eqn:Ep; [|exact Hl].
+  simpl. apply map_Forall_insert_2; [|exact Hl]. apply HP. exact (Hl _ _ Ep).
+Qed.
+
+Lemma deliver_open_ok s t :
+  map_Forall (λ _ p, open_ok p) (props (work s)) →
+  map_Forall (λ _ p, open_ok p) (props (work (deliver s t).1)).
+Proof.
+  intros H. destruct (deliver s t) as [s' r] eqn:Hd. simpl.
+  destruct (deliver_inv _ _ _ _ Hd) as (_ & _ & _ & [(Hp & _)|(Hg & sender & l0 & l' & Hs & Hc0 & Hc1 & Hgv & (G1 & _) & Hs0 & Hge & Hp & _)]).
+  { rewrite Hp. exact H. }
+  rewrite Hp. destruct (decide (t_type t = TRX_PROPOSAL)) as [Ht|Ht].
+  - destruct (gov_execute_proposal _ _ _ _ Ht Hge) as (st & pe & ap & ot & os & pk & _ & ->). simpl.
+    apply map_Forall_insert_2; [apply new_proposal_open|]. rewrite G1. exact H.
+  - assert (Htv : t_type t = TRX_VOTING).
+    { unfold is_gov in Hg. apply orb_true_iff in Hg. destruct Hg as [E|E]; apply Z.eqb_eq in E; [contradiction|exact E]. }
+    destruct (gov_validate_voting _ _ Htv Hgv) as (ph & choice & p & v & Hpl & Hpp & Hv & Hc & _).
+    destruct (gov_execute_voting _ _ _ _ Ht Hge) as (ph' & choice' & p0 & p' & Hpl' & Hpp' & Hvote & ->).
+    rewrite Hpl in Hpl'. inversion Hpl'; subst ph' choice'. clear Hpl'.
+    rewrite G1 in Hpp'. assert (p0 = p) by congruence. subst p0. simpl. rewrite G1.
+    apply map_Forall_insert_2; [|exact H].
+    destruct (H _ _ Hpp) as (T & M & N).
+    destruct (prop_vote_spec _ _ _ _ (proj1 Hc) Hvote) as (_ & _ & _ & _ & _ & _ & _ & _ & _ & R9 & R10 & _ & R12).
+    split; [eapply prop_vote_tally; eassumption|]. unfold maj_ok. rewrite R9, R10, R12. split; assumption.
+Qed.
+
+Definition gov_ledger_ok (l : ledgers) : Prop :=
+  map_Forall (λ _ p, open_ok p) (props l) ∧ map_Forall (λ _ p, frozen_ok p) (fprops l).
+Definition gov_inv (s : state) : Prop := gov_ledger_ok (work s) ∧ gov_ledger_ok (base_of s).
+
+Lemma end_block_gov_inv s : gov_inv s → gov_inv (end_block s).1.
+Proof.
+  intros ((Wo & Wf) & (Bo & Bf)). destruct (end_block s) as [s' r] eqn:He. simpl.
+  destruct (end_block_inv _ _ _ He) as (A & B & C & D & [(-> & _)|(l1 & l2 & np & Hf & Ha & (G1 & G2 & G3) & Hn)]).
+  { split; split; assumption. }
+  unfold gov_inv. rewrite (base_of_same _ _ A B). split; [|split; assumption].
+  destruct (freeze_proposals_spec _ _ _ _ Hf) as (_ & Fz).
+  destruct (apply_proposals_spec _ _ _ _ _ _ Ha) as ((_&_&_&_&Ap) & Az & _).
+  split.
+  - intros k p Hk. rewrite G1, Ap in Hk. specialize (Fz k).
+    destruct (props (base_of s) !! k) as [q|].
+    + unfold frozen_at in Fz. destruct (p_end q <? b_height (bctx s)).
+      * destruct Fz as (Fz & _). unfold hash in *. congruence.
+      * destruct Fz as (Fz & _). apply (Wo k). unfold hash in *. congruence.
+    + destruct Fz as (Fz & _). apply (Wo k). unfold hash in *. congruence.
+  - intros k q Hk. rewrite G2 in Hk.
+    assert (Hk1 : fprops l1 !! k = Some q).
+    { specialize (Az k). destruct (fprops (base_of s) !! k) as [q0|].
+      - unfold applied_at in Az. destruct (p_apply q0 <=? b_height (bctx s)).
+        + destruct Az as (Az & _). unfold hash in *. congruence.
+        + unfold hash in *. congruence.
+      - unfold hash in *. congruence. }
+    specialize (Fz k). destruct (props (base_of s) !! k) as [p|] eqn:Ep.
+    + unfold frozen_at in Fz. destruct (p_end p <? b_height (bctx s)).
+      * destruct Fz as (_ & _ & p' & Hu & Hfp).
+        pose proof (update_major_frozen p p' (Bo _ _ Ep) Hu) as Hfr.
+        destruct (p_major p') as [o|].
+        -- destruct Hfr as (Hfr & _). assert (q = p') by (unfold hash in *; congruence). subst q. exact Hfr.
+        -- apply (Wf k). unfold hash in *. congruence.
+      * destruct Fz as (_ & Fz). apply (Wf k). unfold hash in *. congruence.
+    + destruct Fz as (_ & Fz). apply (Wf k). unfold hash in *. congruence.
+Qed.
+
+Lemma gov_inv_step s o : gov_inv s → gov_inv (sstep s o).
+Proof.
+  intros Hs. destruct o as [hd|t| |]; simpl.
+  - destruct Hs as ((Wo & Wf) & Hb).
+    destruct (begin_block s hd) as [s' r] eqn:Hbb. simpl.
+    destruct (begin_block_inv _ _ _ _ Hbb) as (A & B & C & D & E & F & [->|(_ & _ & Hp)]).
+    { split; [split|]; assumption. }
+    unfold gov_inv. rewrite (base_of_same _ _ A B). split; [|exact Hb]. split.
+    + rewrite Hp. apply (gov_punish_forall open_ok); [|exact Wo]. intros p a. apply prop_punish_open.
+    + rewrite E. exact Wf.
+  - destruct Hs as ((Wo & Wf) & Hb).
+    destruct (deliver_params_unchanged s t) as (A & _ & _ & D & E & _).
+    unfold gov_inv. rewrite (base_of_same _ _ E A). split; [|exact Hb]. split.
+    + apply deliver_open_ok. exact Wo.
+    + rewrite D. exact Wf.
+  - apply end_block_gov_inv. exact Hs.
+  - destruct Hs as (Hw & _). unfold gov_inv, base_of. simpl. rewrite last_snoc. simpl. split; exact Hw.
+Qed.
+
+Lemma init_chain_props g : props (work (init_chain g)) = ∅ ∧ fprops (work (init_chain g)) = ∅.
+Proof.
+  unfold init_chain. simpl.
+  assert (H1 : ∀ (hs : list (addr * Z)) l,
+    gov_same l (foldl (λ l h, set_acct l h.1 {| a_nonce := 0; a_bal := h.2; a_code := false; a_name := 0%N; a_doc := 0%N |}) l hs)).
+  { induction hs as [|x hs IH]; intros l; simpl; [apply gov_same_refl|].
+    eapply gov_same_trans; [|apply IH]. apply gov_same_set_acct. }
+  assert (H2 : ∀ (vs : list (addr * Z)) l,
+    gov_same l (foldl (λ l v, (find_or_new l v.1).1) l vs)).
+  { induction vs as [|x vs IH]; intros l; simpl; [apply gov_same_refl|].
+    eapply gov_same_trans; [|apply IH].
+    destruct (find_or_new l x.1) as [l' y] eqn:E. apply find_or_new_gov in E. exact E. }
+  assert (H3 : ∀ (vs : list (addr * Z)) l,
+    gov_same l (foldl (λ l v, set_dels l (<[v.1 := add_stake (new_delegatee v.1)
+               {| s_from := v.1; s_to := v.1; s_hash := 0%N; s_start := 1; s_refund := 0; s_power := v.2 |}]> (dels l))) l vs)).
+  { induction vs as [|x vs IH]; intros l; simpl; [apply gov_same_refl|].
+    eapply gov_same_trans; [|apply IH]. apply gov_same_set_dels. }
+  match goal with |- props ?l = _ ∧ _ =>
+    assert (H : gov_same (empty_ledgers (gen_params g)) l) end.
+  { eapply gov_same_trans; [apply H1|]. eapply gov_same_trans; [apply H2|]. apply H3. }
+  destruct H as (A & B & _). rewrite A, B. split; reflexivity.
+Qed.
+
+(* G3/G4 over runs: in every state of every run, every open proposal of the working and of the
+   last committed ledger satisfies the tally invariant (option votes = recorded power of the
+   voters currently choosing it), has majority = floor(2*total/3) and no major option; every
+   frozen proposal certifies a two-thirds decision. *)
+Theorem proposals_invariant g ops :
+  let s := srun (init_chain g) ops in
+  (∀ k p, props (work s) !! k = Some p → tally_ok p ∧ maj_ok p ∧ p_major p = None) ∧
+  (∀ k p, props (base_of s) !! k = Some p → tally_ok p ∧ maj_ok p ∧ p_major p = None) ∧
+  (∀ k p, fprops (work s) !! k = Some p → frozen_ok p) ∧
+  (∀ k p, fprops (base_of s) !! k = Some p → frozen_ok p).
+Proof.
+  simpl. unfold srun.
+  assert (H : ∀ ops s, gov_inv s → gov_inv (foldl sstep s ops)).
+  { induction ops0 as [|o ops0 IH]; intros s Hs; simpl; [exact Hs|]. apply IH. apply gov_inv_step. exact Hs. }
+  destruct (H ops (init_chain g)) as ((A & B) & (C & D)).
+  - destruct (init_chain_props g) as (P1 & P2).
+    split.
+    + split; [rewrite P1|rewrite P2]; apply map_Forall_empty.
+    + unfold base_of. change (committed (init_chain g)) with (@nil ledgers). simpl.
+      split; apply map_Forall_empty.
+  - split; [intros k p Hk; exact (A k p Hk)|].
+    split; [intros k p Hk; exact (C k p Hk)|].
+    split; [intros k p Hk; exact (B k p Hk)|intros k p Hk; exact (D k p Hk)].
+Qed.
+Print Assumptions proposals_invariant.
+
+(* ================================================================== 17. G4 and G5 at the level of EndBlock *)
+
+(* G4: EndBlock freezes exactly the proposals of the COMMITTED proposal tree whose voting window
+   ended before this height; each leaves the open ledger and enters the frozen ledger iff the
+   first option in (stable) votes-descending order of the COMMITTED version holds at least its
+   majority power; otherwise it is dropped.  (The frozen entry can only be missing from the
+   resulting state if the same key is ALSO in the committed frozen tree and due for applying.) *)
+Theorem end_block_freeze s s' ups : end_block s = (s', Ok ups) →
+  ∀ k, match props (base_of s) !! k with
+       | Some p =>
+           if p_end p <? b_height (bctx s) then
+             props (work s') !! k = None ∧ is_Some (props (work s) !! k) ∧
+             ∃ p', update_major p = Ok p' ∧
+               (fprops (base_of s) !! k = None →
+                fprops (work s') !! k = match p_major p' with Some _ => Some p' | None => fprops (work s) !! k end)
+           else props (work s') !! k = props (work s) !! k
+       | None => props (work s') !! k = props (work s) !! k
+       end.
+Proof.
+  intros He k.
+  destruct (end_block_inv _ _ _ He) as (A & B & C & D & [(_ & Hn)|(l1 & l2 & np & Hf & Ha & (G1 & G2 & G3) & Hn)]).
+  { exfalso. exact (Hn ups eq_refl). }
+  destruct (freeze_proposals_spec _ _ _ _ Hf) as (_ & Fz). specialize (Fz k).
+  destruct (apply_proposals_spec _ _ _ _ _ _ Ha) as ((_&_&_&_&Ap) & Az & _). specialize (Az k).
+  rewrite G1, G2, Ap.
+  destruct (props (base_of s) !! k) as [p|].
+  - unfold frozen_at in Fz. destruct (p_end p <? b_height (bctx s)).
+    + destruct Fz as (F1 & F2 & p' & Hu & F3). split; [exact F1|]. split; [exact F2|].
+      exists p'. split; [exact Hu|]. intros Hnone. unfold hash in *. rewrite Hnone in Az. cbv iota in Az. exact (eq_trans Az F3).
+    + apply Fz.
+  - apply Fz.
+Qed.
+
+(* G4 corollary: a proposal that enters the frozen ledger was decided by two thirds (rounded
+   down) of its recorded power, counted on the committed version of the proposal *)
+Corollary frozen_has_two_thirds g ops k p :
+  let s := srun (init_chain g) ops in
+  fprops (work s) !! k = Some p →
+  ∃ o, p_major p = Some o ∧ o ∈ p_options p ∧ (∀ o', o' ∈ p_options p → o_votes o' ≤ o_votes o) ∧
+       (p_total p * 2) `quot` 3 ≤ o_votes o ∧ ∃ i : Z, o_votes o = votes_for (p_voters p) i.
+Proof.
+  simpl. intros Hk. destruct (proposals_invariant g ops) as (_ & _ & H & _).
+  destruct (H k p Hk) as (o & H1 & H2 & H3 & H4 & H5 & H6).
+  exists o. rewrite <- H5. auto.
+Qed.
+
+(* G5: a due frozen proposal leaves the frozen ledger at EndBlock, and not before its applying
+   height; the pending parameters are exactly the merge of the ACTIVE parameters with the document
+   of the LAST due parameter proposal in key order *)
+Theorem end_block_apply s s' ups : end_block s = (s', Ok ups) →
+  (∀ k p, fprops (base_of s) !! k = Some p → p_apply p ≤ b_height (bctx s) → fprops (work s') !! k = None) ∧
+  (∀ k p, fprops (base_of s) !! k = Some p → b_height (bctx s) < p_apply p → props (base_of s) !! k = None →
+          fprops (work s') !! k = fprops (work s) !! k) ∧
+  newparams s' = match last (due_payloads (b_height (bctx s)) (sorted_items (fprops (base_of s)))) with
+                 | Some newp => Some (merge_params (gparams s) newp)
+                 | None => newparams s end.
+Proof.
+  intros He.
+  destruct (end_block_inv _ _ _ He) as (A & B & C & D & [(_ & Hn)|(l1 & l2 & np & Hf & Ha & (G1 & G2 & G3) & Hn)]).
+  { exfalso. exact (Hn ups eq_refl). }
+  destruct (freeze_proposals_spec _ _ _ _ Hf) as (_ & Fz).
+  destruct (apply_proposals_spec _ _ _ _ _ _ Ha) as (_ & Az & P).
+  split; [|split].
+  - intros k p Hk Hap. specialize (Az k). unfold hash in *. rewrite Hk in Az. unfold applied_at in Az.
+    apply Z.leb_le in Hap. rewrite Hap in Az. rewrite G2. apply Az.
+  - intros k p Hk Hap Hnp. specialize (Az k). unfold hash in *. rewrite Hk in Az. unfold applied_at in Az.
+    apply Z.leb_gt in Hap. rewrite Hap in Az. rewrite G2. specialize (Fz k). rewrite Hnp in Fz.
+    exact (eq_trans Az (proj2 Fz)).
+  - rewrite Hn. destruct (last _) as [newp|]; apply P.
+Qed.
+
+(* G5: MergeGovParams, field by field *)
+Definition param_fields : list (params → Z) :=
+  [g_version; g_maxValidatorCnt; g_minValidatorStake; g_minDelegatorStake; g_rewardPerPower;
+   g_lazyRewardBlocks; g_lazyApplyingBlocks; g_gasPrice; g_minTrxGas; g_maxTrxGas; g_maxBlockGas;
+   g_minVotingPeriodBlocks; g_maxVotingPeriodBlocks; g_minSelfStakeRatio; g_maxUpdatableStakeRatio;
+   g_maxIndividualStakeRatio; g_slashRatio; g_signedBlocksWindow; g_minSignedBlocks].
+
+Theorem merge_params_fields old new :
+  Forall (λ f : params → Z, f (merge_params old new) = if f new =? 0 then f old else f new) param_fields.
+Proof. repeat constructor. Qed.
+
+(* the list names every field: two parameter sets agreeing on it are equal *)
+Lemma param_fields_complete a b : Forall (λ f : params → Z, f a = f b) param_fields → a = b.
+Proof.
+  intros H. unfold param_fields in H. repeat (apply Forall_cons in H; destruct H as (? & H)).
+  destruct a, b; simpl in *; subst; reflexivity.
+Qed.
+
+Corollary merge_params_unset_keeps old new (f : params → Z) :
+  f ∈ param_fields → f new = 0 → f (merge_params old new) = f old.
+Proof.
+  intros Hin H0. pose proof (merge_params_fields old new) as H. rewrite Forall_forall in H.
+  rewrite (H f Hin), H0. reflexivity.
+Qed.
+
+Corollary merge_params_set_takes old new (f : params → Z) :
+  f ∈ param_fields → f new ≠ 0 → f (merge_params old new) = f new.
+Proof.
+  intros Hin H0. pose proof (merge_params_fields old new) as H. rewrite Forall_forall in H.
+  rewrite (H f Hin). apply Z.eqb_neq in H0. rewrite H0. reflexivity.
+Qed.
+
+(* G5, the documented peculiarity: two parameter proposals applied in one block are both merged
+   against the OLD in-memory parameters; the one with the larger hash wins wholesale, the fields
+   only the first one set are lost. *)
+Global Instance key_le_total {A} : Total (@key_le A).
+Proof. intros x y. unfold key_le. lia. Qed.
+
+Lemma sorted_items_two {A} (k1 k2 : N) (x1 x2 : A) : (k1 < k2)%N →
+  sorted_items (<[k1 := x1]> {[k2 := x2]}) = [(k1, x1); (k2, x2)].
+Proof.
+  intros Hlt. unfold sorted_items.
+  set (m := <[k1 := x1]> {[k2 := x2]} : gmap N A).
+  assert (Hp : merge_sort key_le (map_to_list m) ≡ₚ [(k1, x1); (k2, x2)]).
+  { rewrite merge_sort_Permutation. unfold m. rewrite map_to_list_insert.
+    - rewrite map_to_list_singleton. reflexivity.
+    - apply lookup_singleton_ne. lia. }
+  pose proof (Sorted_merge_sort key_le (map_to_list m)) as Hs.
+  symmetry in Hp. apply Permutation_length_2_inv in Hp. destruct Hp as [Hp|Hp]; [exact Hp|].
+  rewrite Hp in Hs. inversion Hs as [|? ? _ Hh]; subst. inversion Hh as [|? ? Hle]; subst.
+  unfold key_le in Hle. simpl in Hle. lia.
+Qed.
+
+Theorem apply_two_lost_update s base l h k1 k2 p1 p2 n1 n2 l' np' :
+  (k1 < k2)%N → fprops base = <[k1 := p1]> {[k2 := p2]} →
+  p_apply p1 ≤ h → p_apply p2 ≤ h → gov_payload p1 = Some n1 → gov_payload p2 = Some n2 →
+  apply_proposals s base l h = Ok (l', np') →
+  np' = Some (merge_params (gparams s) n2) ∧ lparams l' = merge_params (gparams s) n2 ∧
+  ∀ f : params → Z, f ∈ param_fields → f n2 = 0 → f (lparams l') = f (gparams s).
+Proof.
+  intros Hlt Hb H1 H2 G1 G2 Ha.
+  destruct (apply_proposals_spec _ _ _ _ _ _ Ha) as (_ & _ & P).
+  rewrite Hb in P. unfold hash in *. rewrite (sorted_items_two k1 k2 p1 p2 Hlt) in P.
+  unfold due_payloads in P. simpl in P. apply Z.leb_le in H1, H2. rewrite H1, H2, G1, G2 in P. simpl in P.
+  destruct P as (P1 & P2). split; [exact P1|]. split; [exact P2|].
+  intros f Hf H0. rewrite P2. apply merge_params_unset_keeps; assumption.
+Qed.
+Print Assumptions apply_two_lost_update.
+
+(* ================================================================== 18. examples: the hypotheses are satisfiable *)
+
+Definition ex_params : params := {|
+  g_version := 1; g_maxValidatorCnt := 10; g_minValidatorStake := 1000000000000000000; g_minDelegatorStake := 0;
+  g_rewardPerPower := 1; g_lazyRewardBlocks := 2; g_lazyApplyingBlocks := 1; g_gasPrice := 10;
+  g_minTrxGas := 1; g_maxTrxGas := 1000000; g_maxBlockGas := 10000000; g_minVotingPeriodBlocks := 1;
+  g_maxVotingPeriodBlocks := 100; g_minSelfStakeRatio := 0; g_maxUpdatableStakeRatio := 100;
+  g_maxIndividualStakeRatio := 100; g_slashRatio := 50; g_signedBlocksWindow := 10000; g_minSignedBlocks := 0 |}.
+Definition zero_params : params := {|
+  g_version := 0; g_maxValidatorCnt := 0; g_minValidatorStake := 0; g_minDelegatorStake := 0;
+  g_rewardPerPower := 0; g_lazyRewardBlocks := 0; g_lazyApplyingBlocks := 0; g_gasPrice := 0;
+  g_minTrxGas := 0; g_maxTrxGas := 0; g_maxBlockGas := 0; g_minVotingPeriodBlocks := 0;
+  g_maxVotingPeriodBlocks := 0; g_minSelfStakeRatio := 0; g_maxUpdatableStakeRatio := 0;
+  g_maxIndividualStakeRatio := 0; g_slashRatio := 0; g_signedBlocksWindow := 0; g_minSignedBlocks := 0 |}.
+(* a document that only sets the reward per power (to 7) / only the gas price (to 20) *)
+Definition ex_doc_reward : params := {|
+  g_version := 0; g_maxValidatorCnt := 0; g_minValidatorStake := 0; g_minDelegatorStake := 0;
+  g_rewardPerPower := 7; g_lazyRewardBlocks := 0; g_lazyApplyingBlocks := 0; g_gasPrice := 0;
+  g_minTrxGas := 0; g_maxTrxGas := 0; g_maxBlockGas := 0; g_minVotingPeriodBlocks := 0;
+  g_maxVotingPeriodBlocks := 0; g_minSelfStakeRatio := 0; g_maxUpdatableStakeRatio := 0;
+  g_maxIndividualStakeRatio := 0; g_slashRatio := 0; g_signedBlocksWindow := 0; g_minSignedBlocks := 0 |}.
+Definition ex_doc_price : params := {|
+  g_version := 0; g_maxValidatorCnt := 0; g_minValidatorStake := 0; g_minDelegatorStake := 0;
+  g_rewardPerPower := 0; g_lazyRewardBlocks := 0; g_lazyApplyingBlocks := 0; g_gasPrice := 20;
+  g_minTrxGas := 0; g_maxTrxGas := 0; g_maxBlockGas := 0; g_minVotingPeriodBlocks := 0;
+  g_maxVotingPeriodBlocks := 0; g_minSelfStakeRatio := 0; g_maxUpdatableStakeRatio := 0;
+  g_maxIndividualStakeRatio := 0; g_slashRatio := 0; g_signedBlocksWindow := 0; g_minSignedBlocks := 0 |}.
+
+Definition ex_genesis (p : params) (bal : Z) : genesis := {|
+  gen_params := p;
+  gen_holders := [(1%N, bal); (2%N, bal); (3%N, bal)];
+  gen_validators := [(1%N, 10); (2%N, 20); (3%N, 30)] |}.
+
+Definition ex_hdr (h : Z) : header := {| h_height := h; h_proposer := Some 1%N; h_votes := []; h_evidence := [] |}.
+Definition ex_block (h : Z) (txs : list tx) : list sop := SBegin (ex_hdr h) :: map SDeliver txs ++ [SEnd; SCommit].
+
+Definition ex_tx (ty : Z) (from : addr) (nonce : Z) (pl : payload) (h : hash) (price gas : Z) : tx := {|
+  t_type := ty; t_from := from; t_to := 0%N; t_from_ok := true; t_to_ok := true; t_amount := 0;
+  t_price := price; t_gas := gas; t_nonce := nonce; t_payload := pl; t_hash := h; t_sigok := true; t_evm := None |}.
+
+(* proposal 100 (by validator 1): option 0 = reward 7, option 1 = nothing; voting 4..6, applying at 8 *)
+Definition ex_proposal_tx : tx :=
+  ex_tx TRX_PROPOSAL 1%N 0
+    (PProposal 4 2 8 PROPOSAL_GOVPARAMS [(1%N, Some ex_doc_reward); (2%N, Some zero_params)] true) 100%N 10 5.
+(* proposal 101 (by validator 2): option 0 = gas price 20 *)
+Definition ex_proposal_tx2 : tx :=
+  ex_tx TRX_PROPOSAL 2%N 0
+    (PProposal 4 2 8 PROPOSAL_GOVPARAMS [(3%N, Some ex_doc_price)] true) 101%N 10 5.
+Definition ex_vote_tx (ph : hash) (from : addr) (nonce choice : Z) (h : hash) : tx :=
+  ex_tx TRX_VOTING from nonce (PVoting ph choice) h 10 5.
+
+Definition ex_g := ex_genesis ex_params 1000000.
+(* blocks 1,2 (validators become known), block 3 up to the proposal *)
+Definition ex_ops3 : list sop := ex_block 1 [] ++ ex_block 2 [] ++ [SBegin (ex_hdr 3)].
+(* ... proposal delivered and committed, block 4 begun *)
+Definition ex_ops4 : list sop := ex_ops3 ++ [SDeliver ex_proposal_tx; SEnd; SCommit; SBegin (ex_hdr 4)].
+(* validator 3 votes for option 1, validator 2 for option 0, validator 3 changes to option 0;
+   blocks 5, 6 empty; block 7 (window over) up to EndBlock: frozen; block 8 up to EndBlock: applied *)
+Definition ex_ops7 : list sop :=
+  ex_ops4 ++ [SDeliver (ex_vote_tx 100%N 3%N 0 1 201%N); SDeliver (ex_vote_tx 100%N 2%N 0 0 202%N);
+              SDeliver (ex_vote_tx 100%N 3%N 1 0 203%N); SEnd; SCommit]
+          ++ ex_block 5 [] ++ ex_block 6 [] ++ [SBegin (ex_hdr 7)].
+Definition ex_ops8 : list sop := ex_ops7 ++ [SEnd; SCommit; SBegin (ex_hdr 8)].
+
+Example proposal_submission_ex :
+  ∃ s' gas, deliver (srun (init_chain ex_g) ex_ops3) ex_proposal_tx = (s', Ok gas) ∧
+            t_type ex_proposal_tx = TRX_PROPOSAL ∧
+            lastvals (srun (init_chain ex_g) ex_ops3) = [(3%N, 30); (2%N, 20); (1%N, 10)].
+Proof. eexists _, _. split; [vm_compute; reflexivity|]. split; [reflexivity|vm_compute; reflexivity]. Qed.
+
+Example voting_ex :
+  ∃ s' gas, deliver (srun (init_chain ex_g) ex_ops4) (ex_vote_tx 100%N 3%N 0 1 201%N) = (s', Ok gas) ∧
+            t_type (ex_vote_tx 100%N 3%N 0 1 201%N) = TRX_VOTING.
+Proof. eexists _, _. split; [vm_compute; reflexivity|reflexivity]. Qed.
+
+(* the re-vote of validator 3 moved its 30 units from option 1 to option 0; at EndBlock of block 7
+   the proposal is frozen with option 0 (50 of 60 units, majority 40) as major option *)
+Example freeze_ex :
+  let s := srun (init_chain ex_g) ex_ops7 in
+  ∃ ups, (end_block s).2 = Ok ups ∧
+  (λ p : proposal, (o_id <$> p_major p, o_votes <$> p_options p, p_majority p, p_total p)) <$>
+     fprops (work (end_block s).1) !! 100%N = Some (Some 1%N, [50; 0], 40, 60) ∧
+  props (work (end_block s).1) !! 100%N = None ∧
+  is_Some (props (work s) !! 100%N).
+Proof.
+  eexists. split; [vm_compute; reflexivity|]. split; [vm_compute; reflexivity|].
+  split; [vm_compute; reflexivity|]. vm_compute. eexists; reflexivity.
+Qed.
+
+(* at EndBlock of block 8 (the applying height) the parameters become pending, at Commit active;
+   only the field the option set has changed *)
+Example apply_ex :
+  let s := srun (init_chain ex_g) ex_ops8 in
+  let s1 := (end_block s).1 in
+  gparams s = ex_params ∧ newparams s = None ∧
+  newparams s1 = Some (merge_params ex_params ex_doc_reward) ∧ gparams s1 = ex_params ∧
+  lparams (work s1) = merge_params ex_params ex_doc_reward ∧
+  gparams (commit s1) = merge_params ex_params ex_doc_reward ∧
+  g_rewardPerPower (gparams (commit s1)) = 7 ∧ g_gasPrice (gparams (commit s1)) = 10 ∧
+  fprops (work s1) !! 100%N = None.
+Proof. vm_compute. repeat split; reflexivity. Qed.
+
+(* the lost update on a concrete run: proposals 100 (reward := 7) and 101 (gas price := 20) are
+   both decided and both applied at height 8; afterwards the gas price is 20 but the reward is
+   still 1 *)
+Definition ex_ops_two : list sop :=
+  ex_ops3 ++ [SDeliver ex_proposal_tx; SDeliver ex_proposal_tx2; SEnd; SCommit]
+  ++ ex_block 4 [ex_vote_tx 100%N 3%N 0 0 201%N; ex_vote_tx 100%N 2%N 1 0 202%N;
+                 ex_vote_tx 101%N 3%N 1 0 203%N; ex_vote_tx 101%N 2%N 2 0 204%N]
+  ++ ex_block 5 [] ++ ex_block 6 [] ++ ex_block 7 [] ++ ex_block 8 [].
+
+Example lost_update_ex :
+  let s7 := srun (init_chain ex_g) (ex_ops3 ++ [SDeliver ex_proposal_tx; SDeliver ex_proposal_tx2; SEnd; SCommit]
+              ++ ex_block 4 [ex_vote_tx 100%N 3%N 0 0 201%N; ex_vote_tx 100%N 2%N 1 0 202%N;
+                             ex_vote_tx 101%N 3%N 1 0 203%N; ex_vote_tx 101%N 2%N 2 0 204%N]
+              ++ ex_block 5 [] ++ ex_block 6 [] ++ ex_block 7 []) in
+  let s := srun (init_chain ex_g) ex_ops_two in
+  (gov_payload <$> fprops (work s7) !! 100%N) = Some (Some ex_doc_reward) ∧
+  (gov_payload <$> fprops (work s7) !! 101%N) = Some (Some ex_doc_price) ∧
+  g_gasPrice (gparams s) = 20 ∧ g_rewardPerPower (gparams s) = 1 ∧ lparams (work s) = gparams s.
+Proof. vm_compute. repeat split; reflexivity. Qed.
+
+(* G3, refutation of the unconditional "a failed vote changes nothing": with a gas price of 2^193
+   (outside [params_ok]) a vote whose fee is 2^255 passes validation (the balance covers it), is
+   counted, and then the fee collection fails because uint256 amounts with bit 255 set are
+   refused; DeliverTx answers with an error but the vote stays counted. *)
+Definition bad_params : params := {|
+  g_version := 1; g_maxValidatorCnt := 10; g_minValidatorStake := 1000000000000000000; g_minDelegatorStake := 0;
+  g_rewardPerPower := 1; g_lazyRewardBlocks := 2; g_lazyApplyingBlocks := 1; g_gasPrice := 2 ^ 193;
+  g_minTrxGas := 1; g_maxTrxGas := 1000000; g_maxBlockGas := 10000000; g_minVotingPeriodBlocks := 1;
+  g_maxVotingPeriodBlocks := 100; g_minSelfStakeRatio := 0; g_maxUpdatableStakeRatio := 100;
+  g_maxIndividualStakeRatio := 100; g_slashRatio := 50; g_signedBlocksWindow := 10000; g_minSignedBlocks := 0 |}.
+Definition bad_g := ex_genesis bad_params (2 ^ 255 + 2 ^ 200).
+Definition bad_proposal_tx : tx :=
+  ex_tx TRX_PROPOSAL 1%N 0
+    (PProposal 4 2 8 PROPOSAL_GOVPARAMS [(1%N, Some ex_doc_reward); (2%N, Some zero_params)] true) 100%N (2 ^ 193) 1.
+Definition bad_vote_tx : tx := ex_tx TRX_VOTING 3%N 0 (PVoting 100%N 0) 201%N (2 ^ 193) (2 ^ 62).
+Definition bad_ops : list sop :=
+  ex_block 1 [] ++ ex_block 2 [] ++ ex_block 3 [bad_proposal_tx] ++ [SBegin (ex_hdr 4)].
+
+Theorem failed_vote_refuted :
+  ∃ g ops t s' e, let s := srun (init_chain g) ops in
+    tx_wf t ∧ deliver s t = (s', Err e) ∧ props (work s') ≠ props (work s).
+Proof.
+  exists bad_g, bad_ops, bad_vote_tx. eexists _, _. cbv zeta.
+  split.
+  { Local Transparent two256 two64. unfold tx_wf, two256, two64. Local Opaque two256 two64.
+    simpl. lia. }
+  split; [vm_compute; reflexivity|].
+  intros H.
+  match type of H with ?a = ?b => assert (H1 : (o_votes <$>) ∘ p_options <$> a !! 100%N = (o_votes <$>) ∘ p_options <$> b !! 100%N) by (rewrite H; reflexivity) end.
+  vm_compute in H1. discriminate H1.
+Qed.
+Print Assumptions failed_vote_refuted.
